@@ -69,6 +69,11 @@ let rec sub n0 m =
             | O -> n0
             | S l -> sub k l)
 
+(** val eqb : bool -> bool -> bool **)
+
+let eqb b1 b2 =
+  if b1 then b2 else if b2 then false else true
+
 module Nat =
  struct
   (** val sub : nat -> nat -> nat **)
@@ -155,6 +160,13 @@ module Nat =
   let modulo x = function
   | O -> x
   | S y' -> sub y' (snd (divmod x y' O y'))
+
+  (** val iter : nat -> ('a1 -> 'a1) -> 'a1 -> 'a1 **)
+
+  let rec iter n0 f x =
+    match n0 with
+    | O -> x
+    | S n2 -> f (iter n2 f x)
  end
 
 type positive =
@@ -591,15 +603,32 @@ let hd default = function
 | [] -> default
 | x :: _ -> x
 
+(** val tl : 'a1 list -> 'a1 list **)
+
+let tl = function
+| [] -> []
+| _ :: m -> m
+
+(** val nth : nat -> 'a1 list -> 'a1 -> 'a1 **)
+
+let rec nth n0 l default =
+  match n0 with
+  | O -> (match l with
+          | [] -> default
+          | x :: _ -> x)
+  | S m -> (match l with
+            | [] -> default
+            | _ :: t -> nth m t default)
+
 (** val nth_error : 'a1 list -> nat -> 'a1 option **)
 
 let rec nth_error l = function
 | O -> (match l with
         | [] -> None
         | x :: _ -> Some x)
-| S n1 -> (match l with
+| S n2 -> (match l with
            | [] -> None
-           | _ :: l0 -> nth_error l0 n1)
+           | _ :: l0 -> nth_error l0 n2)
 
 (** val rev : 'a1 list -> 'a1 list **)
 
@@ -644,23 +673,29 @@ let rec forallb f = function
 | [] -> true
 | a :: l0 -> (&&) (f a) (forallb f l0)
 
+(** val filter : ('a1 -> bool) -> 'a1 list -> 'a1 list **)
+
+let rec filter f = function
+| [] -> []
+| x :: l0 -> if f x then x :: (filter f l0) else filter f l0
+
 (** val firstn : nat -> 'a1 list -> 'a1 list **)
 
 let rec firstn n0 l =
   match n0 with
   | O -> []
-  | S n1 -> (match l with
+  | S n2 -> (match l with
              | [] -> []
-             | a :: l0 -> a :: (firstn n1 l0))
+             | a :: l0 -> a :: (firstn n2 l0))
 
 (** val skipn : nat -> 'a1 list -> 'a1 list **)
 
 let rec skipn n0 l =
   match n0 with
   | O -> l
-  | S n1 -> (match l with
+  | S n2 -> (match l with
              | [] -> []
-             | _ :: l0 -> skipn n1 l0)
+             | _ :: l0 -> skipn n2 l0)
 
 (** val seq : nat -> nat -> nat list **)
 
@@ -785,7 +820,7 @@ module Z =
 
   let of_nat = function
   | O -> Z0
-  | S n1 -> Zpos (Coq_Pos.of_succ_nat n1)
+  | S n2 -> Zpos (Coq_Pos.of_succ_nat n2)
  end
 
 type ascii =
@@ -867,6 +902,14 @@ let on_range a b f l =
 
 let insert_n i n0 x l =
   app (firstn i l) (app (repeat x n0) (skipn i l))
+
+(** val last_opt : 'a1 list -> 'a1 option **)
+
+let rec last_opt = function
+| [] -> None
+| x :: r -> (match r with
+             | [] -> Some x
+             | _ :: _ -> last_opt r)
 
 (** val take_while : ('a1 -> bool) -> 'a1 list -> 'a1 list **)
 
@@ -976,6 +1019,16 @@ let pen_eqb p q =
       ((&&) (opt_eqb color_eqb p.foreground q.foreground)
         (opt_eqb color_eqb p.background q.background))
       (inten_eqb p.intensity q.intensity)) (N.eqb p.attrs q.attrs)
+
+(** val cell_eqb : cell -> cell -> bool **)
+
+let cell_eqb a b =
+  (&&) (N.eqb a.ch b.ch) (pen_eqb a.cpen b.cpen)
+
+(** val line_eqb : line -> line -> bool **)
+
+let line_eqb a b =
+  (&&) (list_eqb cell_eqb a.cells b.cells) (eqb a.wrapped b.wrapped)
 
 type pstate =
 | Ground
@@ -1363,6 +1416,11 @@ let sGRP_O4 =
 let blank_cell p =
   { ch = (Npos (XO (XO (XO (XO (XO XH)))))); cpen = p }
 
+(** val default_cell : cell **)
+
+let default_cell =
+  blank_cell default_pen
+
 (** val pen_is_default : pen -> bool **)
 
 let pen_is_default p =
@@ -1589,14 +1647,14 @@ let line_extend l other0 len =
 (** val reflow_go :
     nat -> nat -> line option -> line list -> line list -> line list res **)
 
-let rec reflow_go fuel ncols rest iter acc =
+let rec reflow_go fuel ncols rest iter0 acc =
   match fuel with
   | O -> Panic site_fuel
   | S fuel' ->
     let cur =
       match rest with
-      | Some l -> Some (l, iter)
-      | None -> (match iter with
+      | Some l -> Some (l, iter0)
+      | None -> (match iter0 with
                  | [] -> None
                  | l :: it -> Some (l, it))
     in
@@ -1801,8 +1859,8 @@ let buf_erase b col row m p =
       (guard (Nat.leb col b.bcols) (S (S (S (S (S (S (S (S (S (S (S (S (S (S
         (S (S (S (S (S (S (S (S (S (S (S (S (S (S (S (S (S (S (S (S (S (S
         O))))))))))))))))))))))))))))))))))))) (fun _ ->
-      let n1 = Nat.min n0 (sub b.bcols col) in
-      let e = add col n1 in
+      let n2 = Nat.min n0 (sub b.bcols col) in
+      let e = add col n2 in
       with_row b row (fun l ->
         bind (line_clearM col e p l) (fun l' ->
           if Nat.eqb e b.bcols then set_wrapped false l' else Ok l')))
@@ -1836,7 +1894,7 @@ let buf_scroll_up b a z0 n0 p =
       (S (S (S (S (S (S (S (S (S (S (S (S (S (S (S (S (S (S (S (S (S (S (S (S
       (S (S (S (S (S (S (S (S (S (S (S (S (S
       O)))))))))))))))))))))))))))))))))))))) (fun _ ->
-    let n1 = Nat.min n0 (sub z0 a) in
+    let n2 = Nat.min n0 (sub z0 a) in
     bind
       (if Nat.ltb (sub z0 (S O)) (sub b.brows (S O))
        then with_row b (sub z0 (S O)) (set_wrapped false)
@@ -1844,7 +1902,7 @@ let buf_scroll_up b a z0 n0 p =
       bind
         (if Nat.eqb a O
          then if Nat.eqb z0 b1.brows
-              then Ok (buf_extend b1 n1 b1.bcols p)
+              then Ok (buf_extend b1 n2 b1.bcols p)
               else bind
                      (guard (view_ok b1) (S (S (S (S (S (S (S (S (S (S (S (S
                        (S (S (S (S (S (S (S (S (S (S (S (S (S (S (S (S (S (S
@@ -1862,13 +1920,13 @@ let buf_scroll_up b a z0 n0 p =
                          (fun x -> { lines = (l x); bcols = x.bcols; brows =
                          x.brows; blimit = x.blimit; trim_needed =
                          x.trim_needed })) (fun _ ->
-                         insert_n index n1 (blank_line b1.bcols p) b1.lines)
+                         insert_n index n2 (blank_line b1.bcols p) b1.lines)
                          b1)))
          else bind (with_row b1 (sub a (S O)) (set_wrapped false)) (fun b' ->
                 bind
                   (with_view b' (Nat.leb z0 b'.brows)
-                    (on_range a z0 (rotl n1))) (fun b'' ->
-                  buf_clear b'' (sub z0 n1) z0 p))) (fun b2 -> Ok
+                    (on_range a z0 (rotl n2))) (fun b'' ->
+                  buf_clear b'' (sub z0 n2) z0 p))) (fun b2 -> Ok
         (set (fun b0 -> b0.trim_needed) (fun f ->
           let b0 = fun r -> f r.trim_needed in
           (fun x -> { lines = x.lines; bcols = x.bcols; brows = x.brows;
@@ -1881,10 +1939,10 @@ let buf_scroll_down b a z0 n0 p =
     (guard (Nat.leb a z0) (S (S (S (S (S (S (S (S (S (S (S (S (S (S (S (S (S
       (S (S (S (S (S (S (S (S (S (S (S (S (S (S (S (S (S (S (S (S (S (S
       O)))))))))))))))))))))))))))))))))))))))) (fun _ ->
-    let n1 = Nat.min n0 (sub z0 a) in
-    bind (with_view b (Nat.leb z0 b.brows) (on_range a z0 (rotr n1)))
+    let n2 = Nat.min n0 (sub z0 a) in
+    bind (with_view b (Nat.leb z0 b.brows) (on_range a z0 (rotr n2)))
       (fun b1 ->
-      bind (buf_clear b1 a (add a n1) p) (fun b2 ->
+      bind (buf_clear b1 a (add a n2) p) (fun b2 ->
         bind
           (if Nat.ltb O a
            then with_row b2 (sub a (S O)) (set_wrapped false)
@@ -6441,3 +6499,3577 @@ let vt_ckm v =
 let vt_dump v =
   bind (term_dump v.vterm) (fun a ->
     bind (parser_dumpM v.vparser) (fun b -> Ok (app a b)))
+
+(** val charset_eqb : charset -> charset -> bool **)
+
+let charset_eqb a b =
+  match a with
+  | CsAscii -> (match b with
+                | CsAscii -> true
+                | CsDrawing -> false)
+  | CsDrawing -> (match b with
+                  | CsAscii -> false
+                  | CsDrawing -> true)
+
+(** val btype_eqb : btype -> btype -> bool **)
+
+let btype_eqb a b =
+  match a with
+  | Primary -> (match b with
+                | Primary -> true
+                | Alternate -> false)
+  | Alternate -> (match b with
+                  | Primary -> false
+                  | Alternate -> true)
+
+(** val ctx_eqb : saved_ctx -> saved_ctx -> bool **)
+
+let ctx_eqb a b =
+  (&&)
+    ((&&)
+      ((&&) ((&&) (Nat.eqb a.sc_col b.sc_col) (Nat.eqb a.sc_row b.sc_row))
+        (pen_eqb a.sc_pen b.sc_pen)) (eqb a.sc_origin b.sc_origin))
+    (eqb a.sc_awm b.sc_awm)
+
+(** val lines_eqb : line list -> line list -> bool **)
+
+let lines_eqb =
+  list_eqb line_eqb
+
+(** val limit_eqb : (n * n) option -> (n * n) option -> bool **)
+
+let limit_eqb a b =
+  opt_eqb (fun x y -> (&&) (N.eqb (fst x) (fst y)) (N.eqb (snd x) (snd y))) a
+    b
+
+(** val buffer_eqb : buffer -> buffer -> bool **)
+
+let buffer_eqb a b =
+  (&&)
+    ((&&)
+      ((&&) ((&&) (lines_eqb a.lines b.lines) (Nat.eqb a.bcols b.bcols))
+        (Nat.eqb a.brows b.brows)) (limit_eqb a.blimit b.blimit))
+    (eqb a.trim_needed b.trim_needed)
+
+(** val term_scalars_eqb : term -> term -> bool **)
+
+let term_scalars_eqb a b =
+  (&&)
+    ((&&)
+      ((&&)
+        ((&&)
+          ((&&)
+            ((&&)
+              ((&&)
+                ((&&)
+                  ((&&)
+                    ((&&)
+                      ((&&)
+                        ((&&)
+                          ((&&)
+                            ((&&)
+                              ((&&)
+                                ((&&)
+                                  ((&&)
+                                    ((&&)
+                                      ((&&)
+                                        ((&&)
+                                          ((&&)
+                                            ((&&) (Nat.eqb a.cols b.cols)
+                                              (Nat.eqb a.rows b.rows))
+                                            (btype_eqb a.active b.active))
+                                          (opt_eqb N.eqb a.sb_limit
+                                            b.sb_limit))
+                                        (Nat.eqb a.cur_col b.cur_col))
+                                      (Nat.eqb a.cur_row b.cur_row))
+                                    (eqb a.cur_vis b.cur_vis))
+                                  (pen_eqb a.tpen b.tpen))
+                                (charset_eqb a.cs0 b.cs0))
+                              (charset_eqb a.cs1 b.cs1))
+                            (Nat.eqb a.acs b.acs))
+                          (list_eqb Nat.eqb a.tabs b.tabs)) (eqb a.ins b.ins))
+                      (eqb a.org b.org)) (eqb a.awm b.awm)) (eqb a.nlm b.nlm))
+                (eqb a.ckm b.ckm)) (eqb a.pend b.pend)) (Nat.eqb a.top b.top))
+          (Nat.eqb a.bot b.bot)) (ctx_eqb a.sctx b.sctx))
+      (ctx_eqb a.asctx b.asctx)) (eqb a.xtw b.xtw)
+
+(** val term_eqb : term -> term -> bool **)
+
+let term_eqb a b =
+  (&&)
+    ((&&) ((&&) (term_scalars_eqb a b) (buffer_eqb a.buf b.buf))
+      (buffer_eqb a.other b.other)) (list_eqb eqb a.dirty b.dirty)
+
+(** val param_eqb : param -> param -> bool **)
+
+let param_eqb a b =
+  (&&) (Nat.eqb a.cur_part b.cur_part) (list_eqb N.eqb a.parts b.parts)
+
+(** val parser_eqb : parser0 -> parser0 -> bool **)
+
+let parser_eqb a b =
+  (&&)
+    ((&&)
+      ((&&) (pstate_eqb a.pst b.pst) (list_eqb param_eqb a.params b.params))
+      (Nat.eqb a.cur_param b.cur_param)) (opt_eqb N.eqb a.inter b.inter)
+
+(** val vt_eqb : vt -> vt -> bool **)
+
+let vt_eqb a b =
+  (&&) (parser_eqb a.vparser b.vparser) (term_eqb a.vterm b.vterm)
+
+(** val tview : term -> line list **)
+
+let tview t =
+  view t.buf
+
+(** val tsb : term -> line list **)
+
+let tsb t =
+  firstn (sb_len t.buf) t.buf.lines
+
+(** val set_screen : term -> line list -> line list -> term **)
+
+let set_screen t sb v =
+  set (fun t0 -> t0.buf) (fun f ->
+    let b = fun r -> f r.buf in
+    (fun x -> { cols = x.cols; rows = x.rows; buf = (b x); other = x.other;
+    active = x.active; sb_limit = x.sb_limit; cur_col = x.cur_col; cur_row =
+    x.cur_row; cur_vis = x.cur_vis; tpen = x.tpen; cs0 = x.cs0; cs1 = x.cs1;
+    acs = x.acs; tabs = x.tabs; ins = x.ins; org = x.org; awm = x.awm; nlm =
+    x.nlm; ckm = x.ckm; pend = x.pend; top = x.top; bot = x.bot; sctx =
+    x.sctx; asctx = x.asctx; dirty = x.dirty; xtw = x.xtw })) (fun _ ->
+    set (fun b -> b.lines) (fun f ->
+      let l = fun r -> f r.lines in
+      (fun x -> { lines = (l x); bcols = x.bcols; brows = x.brows; blimit =
+      x.blimit; trim_needed = x.trim_needed })) (fun _ -> app sb v) t.buf) t
+
+(** val set_view : term -> line list -> term **)
+
+let set_view t v =
+  set_screen t (tsb t) v
+
+(** val set_cursor : term -> nat -> nat -> bool -> term **)
+
+let set_cursor t c r p =
+  set (fun t0 -> t0.pend) (fun f ->
+    let b = fun r0 -> f r0.pend in
+    (fun x -> { cols = x.cols; rows = x.rows; buf = x.buf; other = x.other;
+    active = x.active; sb_limit = x.sb_limit; cur_col = x.cur_col; cur_row =
+    x.cur_row; cur_vis = x.cur_vis; tpen = x.tpen; cs0 = x.cs0; cs1 = x.cs1;
+    acs = x.acs; tabs = x.tabs; ins = x.ins; org = x.org; awm = x.awm; nlm =
+    x.nlm; ckm = x.ckm; pend = (b x); top = x.top; bot = x.bot; sctx =
+    x.sctx; asctx = x.asctx; dirty = x.dirty; xtw = x.xtw })) (fun _ -> p)
+    (set (fun t0 -> t0.cur_row) (fun f ->
+      let n0 = fun r0 -> f r0.cur_row in
+      (fun x -> { cols = x.cols; rows = x.rows; buf = x.buf; other = x.other;
+      active = x.active; sb_limit = x.sb_limit; cur_col = x.cur_col;
+      cur_row = (n0 x); cur_vis = x.cur_vis; tpen = x.tpen; cs0 = x.cs0;
+      cs1 = x.cs1; acs = x.acs; tabs = x.tabs; ins = x.ins; org = x.org;
+      awm = x.awm; nlm = x.nlm; ckm = x.ckm; pend = x.pend; top = x.top;
+      bot = x.bot; sctx = x.sctx; asctx = x.asctx; dirty = x.dirty; xtw =
+      x.xtw })) (fun _ -> r)
+      (set (fun t0 -> t0.cur_col) (fun f ->
+        let n0 = fun r0 -> f r0.cur_col in
+        (fun x -> { cols = x.cols; rows = x.rows; buf = x.buf; other =
+        x.other; active = x.active; sb_limit = x.sb_limit; cur_col = 
+        (n0 x); cur_row = x.cur_row; cur_vis = x.cur_vis; tpen = x.tpen;
+        cs0 = x.cs0; cs1 = x.cs1; acs = x.acs; tabs = x.tabs; ins = x.ins;
+        org = x.org; awm = x.awm; nlm = x.nlm; ckm = x.ckm; pend = x.pend;
+        top = x.top; bot = x.bot; sctx = x.sctx; asctx = x.asctx; dirty =
+        x.dirty; xtw = x.xtw })) (fun _ -> c) t))
+
+(** val buffer_vis_eqb : buffer -> buffer -> bool **)
+
+let buffer_vis_eqb a b =
+  (&&)
+    ((&&) ((&&) (lines_eqb a.lines b.lines) (Nat.eqb a.bcols b.bcols))
+      (Nat.eqb a.brows b.brows)) (limit_eqb a.blimit b.blimit)
+
+(** val visible_eqb : term -> term -> bool **)
+
+let visible_eqb a b =
+  (&&) ((&&) (term_scalars_eqb a b) (buffer_vis_eqb a.buf b.buf))
+    (buffer_vis_eqb a.other b.other)
+
+(** val viscol : term -> nat **)
+
+let viscol t =
+  Nat.min t.cur_col (sub t.cols (S O))
+
+(** val n1 : n -> nat **)
+
+let n1 n0 =
+  if N.eqb n0 N0 then S O else N.to_nat n0
+
+(** val row_at : line list -> nat -> line **)
+
+let row_at v r =
+  nth r v { cells = []; wrapped = false }
+
+(** val upd_row : nat -> (line -> line) -> line list -> line list **)
+
+let upd_row =
+  upd
+
+(** val unwrap : line -> line **)
+
+let unwrap l =
+  set (fun l0 -> l0.wrapped) (fun f ->
+    let b = fun r -> f r.wrapped in
+    (fun x -> { cells = x.cells; wrapped = (b x) })) (fun _ -> false) l
+
+(** val mark_wrapped : line -> line **)
+
+let mark_wrapped l =
+  set (fun l0 -> l0.wrapped) (fun f ->
+    let b = fun r -> f r.wrapped in
+    (fun x -> { cells = x.cells; wrapped = (b x) })) (fun _ -> true) l
+
+(** val blanks : nat -> pen -> cell list **)
+
+let blanks n0 p =
+  repeat (blank_cell p) n0
+
+(** val spec_scroll_up :
+    nat -> nat -> nat -> pen -> nat -> line list -> line list * line list **)
+
+let spec_scroll_up a z0 n0 p ncols v =
+  let k = Nat.min n0 (sub z0 a) in
+  let v1 =
+    if Nat.ltb z0 (length v) then upd_row (sub z0 (S O)) unwrap v else v
+  in
+  let v2 = if Nat.ltb O a then upd_row (sub a (S O)) unwrap v1 else v1 in
+  ((app (firstn a v2)
+     (app (firstn (sub (sub z0 a) k) (skipn (add a k) v2))
+       (app (repeat (blank_line ncols p) k) (skipn z0 v2)))),
+  (if Nat.eqb a O then firstn k v2 else []))
+
+(** val spec_scroll_down :
+    nat -> nat -> nat -> pen -> nat -> line list -> line list **)
+
+let spec_scroll_down a z0 n0 p ncols v =
+  let k = Nat.min n0 (sub z0 a) in
+  let v1 =
+    app (firstn a v)
+      (app (repeat (blank_line ncols p) k)
+        (app (firstn (sub (sub z0 a) k) (skipn a v)) (skipn z0 v)))
+  in
+  let v2 = if Nat.ltb O a then upd_row (sub a (S O)) unwrap v1 else v1 in
+  upd_row (sub z0 (S O)) unwrap v2
+
+(** val apply_scroll_up : term -> nat -> nat -> nat -> term **)
+
+let apply_scroll_up t a z0 n0 =
+  let (v', pushed) = spec_scroll_up a z0 n0 t.tpen t.cols (tview t) in
+  set_screen t (app (tsb t) pushed) v'
+
+(** val apply_scroll_down : term -> nat -> nat -> nat -> term **)
+
+let apply_scroll_down t a z0 n0 =
+  set_view t (spec_scroll_down a z0 n0 t.tpen t.cols (tview t))
+
+(** val vt100_glyphs : n list **)
+
+let vt100_glyphs =
+  (Npos (XO (XI (XI (XO (XO (XI (XI (XO (XO (XI (XI (XO (XO
+    XH)))))))))))))) :: ((Npos (XO (XI (XO (XO (XI (XO (XO (XI (XI (XO (XI
+    (XO (XO XH)))))))))))))) :: ((Npos (XI (XO (XO (XI (XO (XO (XO (XO (XO
+    (XO (XI (XO (XO XH)))))))))))))) :: ((Npos (XO (XO (XI (XI (XO (XO (XO
+    (XO (XO (XO (XI (XO (XO XH)))))))))))))) :: ((Npos (XI (XO (XI (XI (XO
+    (XO (XO (XO (XO (XO (XI (XO (XO XH)))))))))))))) :: ((Npos (XO (XI (XO
+    (XI (XO (XO (XO (XO (XO (XO (XI (XO (XO XH)))))))))))))) :: ((Npos (XO
+    (XO (XO (XO (XI (XI (XO XH)))))))) :: ((Npos (XI (XO (XO (XO (XI (XI (XO
+    XH)))))))) :: ((Npos (XO (XO (XI (XO (XO (XI (XO (XO (XO (XO (XI (XO (XO
+    XH)))))))))))))) :: ((Npos (XI (XI (XO (XI (XO (XO (XO (XO (XO (XO (XI
+    (XO (XO XH)))))))))))))) :: ((Npos (XO (XO (XO (XI (XI (XO (XO (XO (XI
+    (XO (XI (XO (XO XH)))))))))))))) :: ((Npos (XO (XO (XO (XO (XI (XO (XO
+    (XO (XI (XO (XI (XO (XO XH)))))))))))))) :: ((Npos (XO (XO (XI (XI (XO
+    (XO (XO (XO (XI (XO (XI (XO (XO XH)))))))))))))) :: ((Npos (XO (XO (XI
+    (XO (XI (XO (XO (XO (XI (XO (XI (XO (XO XH)))))))))))))) :: ((Npos (XO
+    (XO (XI (XI (XI (XI (XO (XO (XI (XO (XI (XO (XO
+    XH)))))))))))))) :: ((Npos (XO (XI (XO (XI (XI (XI (XO (XI (XI (XI (XO
+    (XO (XO XH)))))))))))))) :: ((Npos (XI (XI (XO (XI (XI (XI (XO (XI (XI
+    (XI (XO (XO (XO XH)))))))))))))) :: ((Npos (XO (XO (XO (XO (XO (XO (XO
+    (XO (XI (XO (XI (XO (XO XH)))))))))))))) :: ((Npos (XO (XO (XI (XI (XI
+    (XI (XO (XI (XI (XI (XO (XO (XO XH)))))))))))))) :: ((Npos (XI (XO (XI
+    (XI (XI (XI (XO (XI (XI (XI (XO (XO (XO XH)))))))))))))) :: ((Npos (XO
+    (XO (XI (XI (XI (XO (XO (XO (XI (XO (XI (XO (XO
+    XH)))))))))))))) :: ((Npos (XO (XO (XI (XO (XO (XI (XO (XO (XI (XO (XI
+    (XO (XO XH)))))))))))))) :: ((Npos (XO (XO (XI (XO (XI (XI (XO (XO (XI
+    (XO (XI (XO (XO XH)))))))))))))) :: ((Npos (XO (XO (XI (XI (XO (XI (XO
+    (XO (XI (XO (XI (XO (XO XH)))))))))))))) :: ((Npos (XO (XI (XO (XO (XO
+    (XO (XO (XO (XI (XO (XI (XO (XO XH)))))))))))))) :: ((Npos (XO (XO (XI
+    (XO (XO (XI (XI (XO (XO (XI (XO (XO (XO XH)))))))))))))) :: ((Npos (XI
+    (XO (XI (XO (XO (XI (XI (XO (XO (XI (XO (XO (XO
+    XH)))))))))))))) :: ((Npos (XO (XO (XO (XO (XO (XO (XI (XI (XI
+    XH)))))))))) :: ((Npos (XO (XO (XO (XO (XO (XI (XI (XO (XO (XI (XO (XO
+    (XO XH)))))))))))))) :: ((Npos (XI (XI (XO (XO (XO (XI (XO
+    XH)))))))) :: ((Npos (XI (XO (XI (XO (XO (XO (XI (XI (XO (XI (XO (XO (XO
+    XH)))))))))))))) :: []))))))))))))))))))))))))))))))
+
+(** val spec_translate : charset -> n -> n **)
+
+let spec_translate cs c =
+  match cs with
+  | CsAscii -> c
+  | CsDrawing ->
+    if (&&) (N.leb (Npos (XO (XO (XO (XO (XO (XI XH))))))) c)
+         (N.leb c (Npos (XO (XI (XI (XI (XI (XI XH))))))))
+    then nth (N.to_nat (N.sub c (Npos (XO (XO (XO (XO (XO (XI XH)))))))))
+           vt100_glyphs c
+    else c
+
+(** val spec_active_cs : term -> charset **)
+
+let spec_active_cs t =
+  if Nat.eqb t.acs O then t.cs0 else t.cs1
+
+(** val set_cell : nat -> cell -> line -> line **)
+
+let set_cell col c l =
+  set (fun l0 -> l0.cells) (fun f ->
+    let l0 = fun r -> f r.cells in
+    (fun x -> { cells = (l0 x); wrapped = x.wrapped })) (fun _ ->
+    upd col (fun _ -> c) l.cells) l
+
+(** val insert_cell : nat -> cell -> line -> line **)
+
+let insert_cell col c l =
+  set (fun l0 -> l0.cells) (fun f ->
+    let l0 = fun r -> f r.cells in
+    (fun x -> { cells = (l0 x); wrapped = x.wrapped })) (fun _ ->
+    app (firstn col l.cells)
+      (c :: (firstn (sub (sub (length l.cells) col) (S O))
+              (skipn col l.cells)))) l
+
+(** val spec_print_glyph : term -> n -> term **)
+
+let spec_print_glyph t g =
+  let cl = { ch = g; cpen = t.tpen } in
+  let row = t.cur_row in
+  let t1 =
+    if (&&) t.awm t.pend
+    then if Nat.eqb row t.bot
+         then set_cursor
+                (apply_scroll_up
+                  (set_view t (upd_row row mark_wrapped (tview t))) t.top
+                  (add t.bot (S O)) (S O)) O row false
+         else if Nat.ltb row (sub t.rows (S O))
+              then set_cursor
+                     (set_view t (upd_row row mark_wrapped (tview t))) O
+                     (add row (S O)) false
+              else set_cursor t O row false
+    else t
+  in
+  let col = t1.cur_col in
+  let row0 = t1.cur_row in
+  if Nat.leb t.cols (add col (S O))
+  then let t2 =
+         set_view t1
+           (upd_row row0 (set_cell (sub t.cols (S O)) cl) (tview t1))
+       in
+       if t.awm then set_cursor t2 t.cols row0 true else t2
+  else let t2 =
+         set_view t1
+           (upd_row row0
+             (if t.ins then insert_cell col cl else set_cell col cl)
+             (tview t1))
+       in
+       set_cursor t2 (add col (S O)) row0 false
+
+(** val spec_print : term -> n -> term **)
+
+let spec_print t c =
+  spec_print_glyph t (spec_translate (spec_active_cs t) c)
+
+(** val spec_rep : term -> n -> term **)
+
+let spec_rep t n0 =
+  if Nat.ltb O t.cur_col
+  then let c =
+         (nth (sub t.cur_col (S O)) (row_at (tview t) t.cur_row).cells
+           default_cell).ch
+       in
+       Nat.iter (n1 n0) (fun t' -> spec_print t' c) t
+  else t
+
+(** val spec_up : term -> nat -> nat **)
+
+let spec_up t n0 =
+  if Nat.ltb t.cur_row t.top
+  then sub t.cur_row n0
+  else Nat.max (sub t.cur_row n0) t.top
+
+(** val spec_down : term -> nat -> nat **)
+
+let spec_down t n0 =
+  if Nat.ltb t.bot t.cur_row
+  then Nat.min (sub t.rows (S O)) (add t.cur_row n0)
+  else Nat.min t.bot (add t.cur_row n0)
+
+(** val spec_abs_row : term -> nat -> nat **)
+
+let spec_abs_row t r =
+  let tp = if t.org then t.top else O in
+  let bt = if t.org then t.bot else sub t.rows (S O) in
+  Nat.min (Nat.max (add tp r) tp) bt
+
+(** val stops_after : nat list -> nat -> nat list **)
+
+let stops_after l pos =
+  filter (fun s -> Nat.ltb pos s) l
+
+(** val stops_before : nat list -> nat -> nat list **)
+
+let stops_before l pos =
+  rev (filter (fun s -> Nat.ltb s pos) l)
+
+(** val spec_next_tab : term -> nat -> nat **)
+
+let spec_next_tab t n0 =
+  Nat.min
+    (nth (sub n0 (S O)) (stops_after t.tabs t.cur_col) (sub t.cols (S O)))
+    (sub t.cols (S O))
+
+(** val spec_prev_tab : term -> nat -> nat **)
+
+let spec_prev_tab t n0 =
+  Nat.min (nth (sub n0 (S O)) (stops_before t.tabs t.cur_col) O)
+    (sub t.cols (S O))
+
+(** val spec_home : term -> term **)
+
+let spec_home t =
+  set_cursor t O (if t.org then t.top else O) false
+
+(** val spec_cursor : term -> func -> term option **)
+
+let spec_cursor t f =
+  let vc = viscol t in
+  let row = t.cur_row in
+  (match f with
+   | Bs -> Some (set_cursor t (sub vc (S O)) row false)
+   | Cbt n0 -> Some (set_cursor t (spec_prev_tab t (n1 n0)) row false)
+   | Cha n0 ->
+     Some
+       (set_cursor t (Nat.min (sub (n1 n0) (S O)) (sub t.cols (S O))) row
+         false)
+   | Cht n0 -> Some (set_cursor t (spec_next_tab t (n1 n0)) row false)
+   | Cnl n0 -> Some (set_cursor t O (spec_down t (n1 n0)) false)
+   | Cpl n0 -> Some (set_cursor t O (spec_up t (n1 n0)) false)
+   | Cr -> Some (set_cursor t O row false)
+   | Cub n0 -> Some (set_cursor t (sub vc (n1 n0)) row false)
+   | Cud n0 -> Some (set_cursor t vc (spec_down t (n1 n0)) false)
+   | Cuf n0 ->
+     Some
+       (set_cursor t (Nat.min (sub t.cols (S O)) (add vc (n1 n0))) row false)
+   | Cup (r, c) ->
+     Some
+       (set_cursor t (Nat.min (sub (n1 c) (S O)) (sub t.cols (S O)))
+         (spec_abs_row t (sub (n1 r) (S O))) false)
+   | Cuu n0 -> Some (set_cursor t vc (spec_up t (n1 n0)) false)
+   | Decrst ms ->
+     (match ms with
+      | [] -> None
+      | d :: l ->
+        (match d with
+         | Origin ->
+           (match l with
+            | [] ->
+              Some
+                (spec_home
+                  (set (fun t0 -> t0.org) (fun f0 ->
+                    let b = fun r -> f0 r.org in
+                    (fun x -> { cols = x.cols; rows = x.rows; buf = x.buf;
+                    other = x.other; active = x.active; sb_limit =
+                    x.sb_limit; cur_col = x.cur_col; cur_row = x.cur_row;
+                    cur_vis = x.cur_vis; tpen = x.tpen; cs0 = x.cs0; cs1 =
+                    x.cs1; acs = x.acs; tabs = x.tabs; ins = x.ins; org =
+                    (b x); awm = x.awm; nlm = x.nlm; ckm = x.ckm; pend =
+                    x.pend; top = x.top; bot = x.bot; sctx = x.sctx; asctx =
+                    x.asctx; dirty = x.dirty; xtw = x.xtw })) (fun _ ->
+                    false) t))
+            | _ :: _ -> None)
+         | _ -> None))
+   | Decset ms ->
+     (match ms with
+      | [] -> None
+      | d :: l ->
+        (match d with
+         | Origin ->
+           (match l with
+            | [] ->
+              Some
+                (spec_home
+                  (set (fun t0 -> t0.org) (fun f0 ->
+                    let b = fun r -> f0 r.org in
+                    (fun x -> { cols = x.cols; rows = x.rows; buf = x.buf;
+                    other = x.other; active = x.active; sb_limit =
+                    x.sb_limit; cur_col = x.cur_col; cur_row = x.cur_row;
+                    cur_vis = x.cur_vis; tpen = x.tpen; cs0 = x.cs0; cs1 =
+                    x.cs1; acs = x.acs; tabs = x.tabs; ins = x.ins; org =
+                    (b x); awm = x.awm; nlm = x.nlm; ckm = x.ckm; pend =
+                    x.pend; top = x.top; bot = x.bot; sctx = x.sctx; asctx =
+                    x.asctx; dirty = x.dirty; xtw = x.xtw })) (fun _ -> true)
+                    t))
+            | _ :: _ -> None)
+         | _ -> None))
+   | Decstbm (tp, bt) ->
+     let tp' = sub (n1 tp) (S O) in
+     let bt' = sub (if N.eqb bt N0 then t.rows else N.to_nat bt) (S O) in
+     let t1 =
+       if (&&) (Nat.ltb tp' bt') (Nat.ltb bt' t.rows)
+       then set (fun t0 -> t0.bot) (fun f0 ->
+              let n0 = fun r -> f0 r.bot in
+              (fun x -> { cols = x.cols; rows = x.rows; buf = x.buf; other =
+              x.other; active = x.active; sb_limit = x.sb_limit; cur_col =
+              x.cur_col; cur_row = x.cur_row; cur_vis = x.cur_vis; tpen =
+              x.tpen; cs0 = x.cs0; cs1 = x.cs1; acs = x.acs; tabs = x.tabs;
+              ins = x.ins; org = x.org; awm = x.awm; nlm = x.nlm; ckm =
+              x.ckm; pend = x.pend; top = x.top; bot = (n0 x); sctx = x.sctx;
+              asctx = x.asctx; dirty = x.dirty; xtw = x.xtw })) (fun _ ->
+              bt')
+              (set (fun t0 -> t0.top) (fun f0 ->
+                let n0 = fun r -> f0 r.top in
+                (fun x -> { cols = x.cols; rows = x.rows; buf = x.buf;
+                other = x.other; active = x.active; sb_limit = x.sb_limit;
+                cur_col = x.cur_col; cur_row = x.cur_row; cur_vis =
+                x.cur_vis; tpen = x.tpen; cs0 = x.cs0; cs1 = x.cs1; acs =
+                x.acs; tabs = x.tabs; ins = x.ins; org = x.org; awm = x.awm;
+                nlm = x.nlm; ckm = x.ckm; pend = x.pend; top = (n0 x); bot =
+                x.bot; sctx = x.sctx; asctx = x.asctx; dirty = x.dirty; xtw =
+                x.xtw })) (fun _ -> tp') t)
+       else t
+     in
+     Some (spec_home t1)
+   | Ht -> Some (set_cursor t (spec_next_tab t (S O)) row false)
+   | Lf ->
+     if Nat.eqb row t.bot
+     then None
+     else let t1 =
+            if Nat.ltb row (sub t.rows (S O))
+            then set_cursor t vc (add row (S O)) false
+            else t
+          in
+          Some (if t.nlm then set_cursor t1 O t1.cur_row false else t1)
+   | Nel ->
+     if Nat.eqb row t.bot
+     then None
+     else let t1 =
+            if Nat.ltb row (sub t.rows (S O))
+            then set_cursor t vc (add row (S O)) false
+            else t
+          in
+          Some (set_cursor t1 O t1.cur_row false)
+   | Ri ->
+     if Nat.eqb row t.top
+     then None
+     else Some
+            (if Nat.ltb O row
+             then set_cursor t vc (sub row (S O)) false
+             else t)
+   | Vpa n0 ->
+     Some (set_cursor t vc (spec_abs_row t (sub (n1 n0) (S O))) false)
+   | Vpr n0 -> Some (set_cursor t vc (spec_down t (n1 n0)) false)
+   | _ -> None)
+
+(** val spec_ildl_range : term -> nat * nat **)
+
+let spec_ildl_range t =
+  if Nat.leb t.cur_row t.bot
+  then (t.cur_row, (add t.bot (S O)))
+  else (t.cur_row, t.rows)
+
+(** val spec_scroll : term -> func -> term option **)
+
+let spec_scroll t f =
+  let row = t.cur_row in
+  (match f with
+   | Dl n0 ->
+     let (a, z0) = spec_ildl_range t in Some (apply_scroll_up t a z0 (n1 n0))
+   | Il n0 ->
+     let (a, z0) = spec_ildl_range t in
+     Some (apply_scroll_down t a z0 (n1 n0))
+   | Lf ->
+     if Nat.eqb row t.bot
+     then let t1 = apply_scroll_up t t.top (add t.bot (S O)) (S O) in
+          Some (if t.nlm then set_cursor t1 O row false else t1)
+     else None
+   | Nel ->
+     if Nat.eqb row t.bot
+     then Some
+            (set_cursor (apply_scroll_up t t.top (add t.bot (S O)) (S O)) O
+              row false)
+     else None
+   | Ri ->
+     if Nat.eqb row t.top
+     then Some (apply_scroll_down t t.top (add t.bot (S O)) (S O))
+     else None
+   | Sd n0 -> Some (apply_scroll_down t t.top (add t.bot (S O)) (n1 n0))
+   | Su n0 -> Some (apply_scroll_up t t.top (add t.bot (S O)) (n1 n0))
+   | _ -> None)
+
+(** val may_touch_scrollback : func -> bool **)
+
+let may_touch_scrollback = function
+| Decrst _ -> true
+| Decset _ -> true
+| Dl _ -> true
+| Lf -> true
+| Nel -> true
+| Print _ -> true
+| Rep _ -> true
+| Ris -> true
+| Su _ -> true
+| Xtwinops _ -> true
+| _ -> false
+
+(** val clear_cells : nat -> nat -> pen -> line -> line **)
+
+let clear_cells a z0 p l =
+  set (fun l0 -> l0.cells) (fun f ->
+    let l0 = fun r -> f r.cells in
+    (fun x -> { cells = (l0 x); wrapped = x.wrapped })) (fun _ ->
+    app (firstn a l.cells) (app (blanks (sub z0 a) p) (skipn z0 l.cells))) l
+
+(** val spec_edit : term -> func -> term option **)
+
+let spec_edit t f =
+  let col = t.cur_col in
+  let row = t.cur_row in
+  let p = t.tpen in
+  let nc = t.cols in
+  let v = tview t in
+  (match f with
+   | Dch n0 ->
+     let col' = Nat.min col (sub nc (S O)) in
+     let k = Nat.min (n1 n0) (sub nc col') in
+     let t1 = if Nat.leb nc col then set_cursor t col' row false else t in
+     Some
+     (set_view t1
+       (upd_row row (fun l ->
+         unwrap
+           (set (fun l0 -> l0.cells) (fun f0 ->
+             let l0 = fun r -> f0 r.cells in
+             (fun x -> { cells = (l0 x); wrapped = x.wrapped })) (fun _ ->
+             app (firstn col' l.cells)
+               (app (skipn (add col' k) l.cells) (blanks k p))) l)) v))
+   | Decaln ->
+     Some
+       (set_view t
+         (map (fun l ->
+           set (fun l0 -> l0.cells) (fun f0 ->
+             let l0 = fun r -> f0 r.cells in
+             (fun x -> { cells = (l0 x); wrapped = x.wrapped })) (fun _ ->
+             repeat { ch = (Npos (XI (XO (XI (XO (XO (XO XH))))))); cpen =
+               default_pen } nc) l) v))
+   | Ech n0 ->
+     let k = Nat.min (n1 n0) (sub nc col) in
+     Some
+     (set_view t
+       (upd_row row (fun l ->
+         let l' = clear_cells col (add col k) p l in
+         if Nat.eqb (add col k) nc then unwrap l' else l') v))
+   | Ed s ->
+     (match s with
+      | EdBelow ->
+        let v1 = upd_row row (fun l -> unwrap (clear_cells col nc p l)) v in
+        Some
+        (set_view t
+          (app (firstn (add row (S O)) v1)
+            (repeat (blank_line nc p) (sub (sub t.rows row) (S O)))))
+      | EdAbove ->
+        let v1 = upd_row row (clear_cells O (Nat.min (add col (S O)) nc) p) v
+        in
+        Some (set_view t (app (repeat (blank_line nc p) row) (skipn row v1)))
+      | EdAll -> Some (set_view t (repeat (blank_line nc p) t.rows))
+      | EdSavedLines -> Some t)
+   | El s ->
+     (match s with
+      | ElToRight ->
+        Some
+          (set_view t
+            (upd_row row (fun l -> unwrap (clear_cells col nc p l)) v))
+      | ElToLeft ->
+        Some
+          (set_view t
+            (upd_row row (clear_cells O (Nat.min (add col (S O)) nc) p) v))
+      | ElAll ->
+        Some
+          (set_view t
+            (upd_row row (fun l -> unwrap (clear_cells O nc p l)) v)))
+   | Ich n0 ->
+     let k = Nat.min (n1 n0) (sub nc col) in
+     Some
+     (set_view t
+       (upd_row row (fun l ->
+         set (fun l0 -> l0.cells) (fun f0 ->
+           let l0 = fun r -> f0 r.cells in
+           (fun x -> { cells = (l0 x); wrapped = x.wrapped })) (fun _ ->
+           app (firstn col l.cells)
+             (app (blanks k p)
+               (firstn (sub (sub nc col) k) (skipn col l.cells)))) l) v))
+   | _ -> None)
+
+(** val is_italic : pen -> bool **)
+
+let is_italic p =
+  pen_has iTALIC_MASK p
+
+(** val is_underline : pen -> bool **)
+
+let is_underline p =
+  pen_has uNDERLINE_MASK p
+
+(** val is_strikethrough : pen -> bool **)
+
+let is_strikethrough p =
+  pen_has sTRIKETHROUGH_MASK p
+
+(** val is_blink : pen -> bool **)
+
+let is_blink p =
+  pen_has bLINK_MASK p
+
+(** val is_inverse : pen -> bool **)
+
+let is_inverse p =
+  pen_has iNVERSE_MASK p
+
+type pen_obs = { o_fg : color option; o_bg : color option; o_int : inten;
+                 o_italic : bool; o_underline : bool; o_blink : bool;
+                 o_inverse : bool; o_strike : bool }
+
+(** val observe : pen -> pen_obs **)
+
+let observe p =
+  { o_fg = p.foreground; o_bg = p.background; o_int = p.intensity; o_italic =
+    (is_italic p); o_underline = (is_underline p); o_blink = (is_blink p);
+    o_inverse = (is_inverse p); o_strike = (is_strikethrough p) }
+
+(** val default_obs : pen_obs **)
+
+let default_obs =
+  { o_fg = None; o_bg = None; o_int = Normal; o_italic = false; o_underline =
+    false; o_blink = false; o_inverse = false; o_strike = false }
+
+(** val spec_sgr_one : pen_obs -> sgr_op -> pen_obs **)
+
+let spec_sgr_one o op0 =
+  let { o_fg = fg; o_bg = bg; o_int = i; o_italic = it; o_underline = un;
+    o_blink = bl; o_inverse = inv; o_strike = st } = o
+  in
+  (match op0 with
+   | Reset -> default_obs
+   | SetBoldIntensity ->
+     { o_fg = fg; o_bg = bg; o_int = Bold; o_italic = it; o_underline = un;
+       o_blink = bl; o_inverse = inv; o_strike = st }
+   | SetFaintIntensity ->
+     { o_fg = fg; o_bg = bg; o_int = Faint; o_italic = it; o_underline = un;
+       o_blink = bl; o_inverse = inv; o_strike = st }
+   | SetItalic ->
+     { o_fg = fg; o_bg = bg; o_int = i; o_italic = true; o_underline = un;
+       o_blink = bl; o_inverse = inv; o_strike = st }
+   | SetUnderline ->
+     { o_fg = fg; o_bg = bg; o_int = i; o_italic = it; o_underline = true;
+       o_blink = bl; o_inverse = inv; o_strike = st }
+   | SetBlink ->
+     { o_fg = fg; o_bg = bg; o_int = i; o_italic = it; o_underline = un;
+       o_blink = true; o_inverse = inv; o_strike = st }
+   | SetInverse ->
+     { o_fg = fg; o_bg = bg; o_int = i; o_italic = it; o_underline = un;
+       o_blink = bl; o_inverse = true; o_strike = st }
+   | SetStrikethrough ->
+     { o_fg = fg; o_bg = bg; o_int = i; o_italic = it; o_underline = un;
+       o_blink = bl; o_inverse = inv; o_strike = true }
+   | ResetIntensity ->
+     { o_fg = fg; o_bg = bg; o_int = Normal; o_italic = it; o_underline = un;
+       o_blink = bl; o_inverse = inv; o_strike = st }
+   | ResetItalic ->
+     { o_fg = fg; o_bg = bg; o_int = i; o_italic = false; o_underline = un;
+       o_blink = bl; o_inverse = inv; o_strike = st }
+   | ResetUnderline ->
+     { o_fg = fg; o_bg = bg; o_int = i; o_italic = it; o_underline = false;
+       o_blink = bl; o_inverse = inv; o_strike = st }
+   | ResetBlink ->
+     { o_fg = fg; o_bg = bg; o_int = i; o_italic = it; o_underline = un;
+       o_blink = false; o_inverse = inv; o_strike = st }
+   | ResetInverse ->
+     { o_fg = fg; o_bg = bg; o_int = i; o_italic = it; o_underline = un;
+       o_blink = bl; o_inverse = false; o_strike = st }
+   | ResetStrikethrough ->
+     { o_fg = fg; o_bg = bg; o_int = i; o_italic = it; o_underline = un;
+       o_blink = bl; o_inverse = inv; o_strike = false }
+   | SetForegroundColor c ->
+     { o_fg = (Some c); o_bg = bg; o_int = i; o_italic = it; o_underline =
+       un; o_blink = bl; o_inverse = inv; o_strike = st }
+   | ResetForegroundColor ->
+     { o_fg = None; o_bg = bg; o_int = i; o_italic = it; o_underline = un;
+       o_blink = bl; o_inverse = inv; o_strike = st }
+   | SetBackgroundColor c ->
+     { o_fg = fg; o_bg = (Some c); o_int = i; o_italic = it; o_underline =
+       un; o_blink = bl; o_inverse = inv; o_strike = st }
+   | ResetBackgroundColor ->
+     { o_fg = fg; o_bg = None; o_int = i; o_italic = it; o_underline = un;
+       o_blink = bl; o_inverse = inv; o_strike = st })
+
+(** val obs_eqb : pen_obs -> pen_obs -> bool **)
+
+let obs_eqb a b =
+  (&&)
+    ((&&)
+      ((&&)
+        ((&&)
+          ((&&)
+            ((&&)
+              ((&&) (opt_eqb color_eqb a.o_fg b.o_fg)
+                (opt_eqb color_eqb a.o_bg b.o_bg))
+              (inten_eqb a.o_int b.o_int)) (eqb a.o_italic b.o_italic))
+          (eqb a.o_underline b.o_underline)) (eqb a.o_blink b.o_blink))
+      (eqb a.o_inverse b.o_inverse)) (eqb a.o_strike b.o_strike)
+
+(** val spec_sgr_code : n -> sgr_op option **)
+
+let spec_sgr_code v = match v with
+| N0 -> Some Reset
+| Npos p ->
+  (match p with
+   | XI p0 ->
+     (match p0 with
+      | XI p1 ->
+        (match p1 with
+         | XI p2 ->
+           (match p2 with
+            | XO p3 ->
+              (match p3 with
+               | XI _ ->
+                 if (&&) (N.leb (Npos (XO (XI (XI (XI XH))))) v)
+                      (N.leb v (Npos (XI (XO (XI (XO (XO XH)))))))
+                 then Some (SetForegroundColor (Indexed
+                        (N.sub v (Npos (XO (XI (XI (XI XH))))))))
+                 else if (&&) (N.leb (Npos (XO (XO (XO (XI (XO XH)))))) v)
+                           (N.leb v (Npos (XI (XI (XI (XI (XO XH)))))))
+                      then Some (SetBackgroundColor (Indexed
+                             (N.sub v (Npos (XO (XO (XO (XI (XO XH)))))))))
+                      else if (&&)
+                                (N.leb (Npos (XO (XI (XO (XI (XI (XO
+                                  XH))))))) v)
+                                (N.leb v (Npos (XI (XO (XO (XO (XO (XI
+                                  XH))))))))
+                           then Some (SetForegroundColor (Indexed
+                                  (N.add
+                                    (N.sub v (Npos (XO (XI (XO (XI (XI (XO
+                                      XH)))))))) (Npos (XO (XO (XO XH)))))))
+                           else if (&&)
+                                     (N.leb (Npos (XO (XO (XI (XO (XO (XI
+                                       XH))))))) v)
+                                     (N.leb v (Npos (XI (XI (XO (XI (XO (XI
+                                       XH))))))))
+                                then Some (SetBackgroundColor (Indexed
+                                       (N.add
+                                         (N.sub v (Npos (XO (XO (XI (XO (XO
+                                           (XI XH)))))))) (Npos (XO (XO (XO
+                                         XH)))))))
+                                else None
+               | XO p4 ->
+                 (match p4 with
+                  | XH -> Some ResetForegroundColor
+                  | _ ->
+                    if (&&) (N.leb (Npos (XO (XI (XI (XI XH))))) v)
+                         (N.leb v (Npos (XI (XO (XI (XO (XO XH)))))))
+                    then Some (SetForegroundColor (Indexed
+                           (N.sub v (Npos (XO (XI (XI (XI XH))))))))
+                    else if (&&) (N.leb (Npos (XO (XO (XO (XI (XO XH)))))) v)
+                              (N.leb v (Npos (XI (XI (XI (XI (XO XH)))))))
+                         then Some (SetBackgroundColor (Indexed
+                                (N.sub v (Npos (XO (XO (XO (XI (XO XH)))))))))
+                         else if (&&)
+                                   (N.leb (Npos (XO (XI (XO (XI (XI (XO
+                                     XH))))))) v)
+                                   (N.leb v (Npos (XI (XO (XO (XO (XO (XI
+                                     XH))))))))
+                              then Some (SetForegroundColor (Indexed
+                                     (N.add
+                                       (N.sub v (Npos (XO (XI (XO (XI (XI (XO
+                                         XH)))))))) (Npos (XO (XO (XO XH)))))))
+                              else if (&&)
+                                        (N.leb (Npos (XO (XO (XI (XO (XO (XI
+                                          XH))))))) v)
+                                        (N.leb v (Npos (XI (XI (XO (XI (XO
+                                          (XI XH))))))))
+                                   then Some (SetBackgroundColor (Indexed
+                                          (N.add
+                                            (N.sub v (Npos (XO (XO (XI (XO
+                                              (XO (XI XH)))))))) (Npos (XO
+                                            (XO (XO XH)))))))
+                                   else None)
+               | XH -> Some ResetItalic)
+            | _ ->
+              if (&&) (N.leb (Npos (XO (XI (XI (XI XH))))) v)
+                   (N.leb v (Npos (XI (XO (XI (XO (XO XH)))))))
+              then Some (SetForegroundColor (Indexed
+                     (N.sub v (Npos (XO (XI (XI (XI XH))))))))
+              else if (&&) (N.leb (Npos (XO (XO (XO (XI (XO XH)))))) v)
+                        (N.leb v (Npos (XI (XI (XI (XI (XO XH)))))))
+                   then Some (SetBackgroundColor (Indexed
+                          (N.sub v (Npos (XO (XO (XO (XI (XO XH)))))))))
+                   else if (&&)
+                             (N.leb (Npos (XO (XI (XO (XI (XI (XO XH))))))) v)
+                             (N.leb v (Npos (XI (XO (XO (XO (XO (XI XH))))))))
+                        then Some (SetForegroundColor (Indexed
+                               (N.add
+                                 (N.sub v (Npos (XO (XI (XO (XI (XI (XO
+                                   XH)))))))) (Npos (XO (XO (XO XH)))))))
+                        else if (&&)
+                                  (N.leb (Npos (XO (XO (XI (XO (XO (XI
+                                    XH))))))) v)
+                                  (N.leb v (Npos (XI (XI (XO (XI (XO (XI
+                                    XH))))))))
+                             then Some (SetBackgroundColor (Indexed
+                                    (N.add
+                                      (N.sub v (Npos (XO (XO (XI (XO (XO (XI
+                                        XH)))))))) (Npos (XO (XO (XO XH)))))))
+                             else None)
+         | XO p2 ->
+           (match p2 with
+            | XI p3 ->
+              (match p3 with
+               | XH -> Some ResetInverse
+               | _ ->
+                 if (&&) (N.leb (Npos (XO (XI (XI (XI XH))))) v)
+                      (N.leb v (Npos (XI (XO (XI (XO (XO XH)))))))
+                 then Some (SetForegroundColor (Indexed
+                        (N.sub v (Npos (XO (XI (XI (XI XH))))))))
+                 else if (&&) (N.leb (Npos (XO (XO (XO (XI (XO XH)))))) v)
+                           (N.leb v (Npos (XI (XI (XI (XI (XO XH)))))))
+                      then Some (SetBackgroundColor (Indexed
+                             (N.sub v (Npos (XO (XO (XO (XI (XO XH)))))))))
+                      else if (&&)
+                                (N.leb (Npos (XO (XI (XO (XI (XI (XO
+                                  XH))))))) v)
+                                (N.leb v (Npos (XI (XO (XO (XO (XO (XI
+                                  XH))))))))
+                           then Some (SetForegroundColor (Indexed
+                                  (N.add
+                                    (N.sub v (Npos (XO (XI (XO (XI (XI (XO
+                                      XH)))))))) (Npos (XO (XO (XO XH)))))))
+                           else if (&&)
+                                     (N.leb (Npos (XO (XO (XI (XO (XO (XI
+                                       XH))))))) v)
+                                     (N.leb v (Npos (XI (XI (XO (XI (XO (XI
+                                       XH))))))))
+                                then Some (SetBackgroundColor (Indexed
+                                       (N.add
+                                         (N.sub v (Npos (XO (XO (XI (XO (XO
+                                           (XI XH)))))))) (Npos (XO (XO (XO
+                                         XH)))))))
+                                else None)
+            | _ ->
+              if (&&) (N.leb (Npos (XO (XI (XI (XI XH))))) v)
+                   (N.leb v (Npos (XI (XO (XI (XO (XO XH)))))))
+              then Some (SetForegroundColor (Indexed
+                     (N.sub v (Npos (XO (XI (XI (XI XH))))))))
+              else if (&&) (N.leb (Npos (XO (XO (XO (XI (XO XH)))))) v)
+                        (N.leb v (Npos (XI (XI (XI (XI (XO XH)))))))
+                   then Some (SetBackgroundColor (Indexed
+                          (N.sub v (Npos (XO (XO (XO (XI (XO XH)))))))))
+                   else if (&&)
+                             (N.leb (Npos (XO (XI (XO (XI (XI (XO XH))))))) v)
+                             (N.leb v (Npos (XI (XO (XO (XO (XO (XI XH))))))))
+                        then Some (SetForegroundColor (Indexed
+                               (N.add
+                                 (N.sub v (Npos (XO (XI (XO (XI (XI (XO
+                                   XH)))))))) (Npos (XO (XO (XO XH)))))))
+                        else if (&&)
+                                  (N.leb (Npos (XO (XO (XI (XO (XO (XI
+                                    XH))))))) v)
+                                  (N.leb v (Npos (XI (XI (XO (XI (XO (XI
+                                    XH))))))))
+                             then Some (SetBackgroundColor (Indexed
+                                    (N.add
+                                      (N.sub v (Npos (XO (XO (XI (XO (XO (XI
+                                        XH)))))))) (Npos (XO (XO (XO XH)))))))
+                             else None)
+         | XH -> Some SetInverse)
+      | XO p1 ->
+        (match p1 with
+         | XI p2 ->
+           (match p2 with
+            | XI p3 ->
+              (match p3 with
+               | XH -> Some ResetStrikethrough
+               | _ ->
+                 if (&&) (N.leb (Npos (XO (XI (XI (XI XH))))) v)
+                      (N.leb v (Npos (XI (XO (XI (XO (XO XH)))))))
+                 then Some (SetForegroundColor (Indexed
+                        (N.sub v (Npos (XO (XI (XI (XI XH))))))))
+                 else if (&&) (N.leb (Npos (XO (XO (XO (XI (XO XH)))))) v)
+                           (N.leb v (Npos (XI (XI (XI (XI (XO XH)))))))
+                      then Some (SetBackgroundColor (Indexed
+                             (N.sub v (Npos (XO (XO (XO (XI (XO XH)))))))))
+                      else if (&&)
+                                (N.leb (Npos (XO (XI (XO (XI (XI (XO
+                                  XH))))))) v)
+                                (N.leb v (Npos (XI (XO (XO (XO (XO (XI
+                                  XH))))))))
+                           then Some (SetForegroundColor (Indexed
+                                  (N.add
+                                    (N.sub v (Npos (XO (XI (XO (XI (XI (XO
+                                      XH)))))))) (Npos (XO (XO (XO XH)))))))
+                           else if (&&)
+                                     (N.leb (Npos (XO (XO (XI (XO (XO (XI
+                                       XH))))))) v)
+                                     (N.leb v (Npos (XI (XI (XO (XI (XO (XI
+                                       XH))))))))
+                                then Some (SetBackgroundColor (Indexed
+                                       (N.add
+                                         (N.sub v (Npos (XO (XO (XI (XO (XO
+                                           (XI XH)))))))) (Npos (XO (XO (XO
+                                         XH)))))))
+                                else None)
+            | XO p3 ->
+              (match p3 with
+               | XH -> Some ResetIntensity
+               | _ ->
+                 if (&&) (N.leb (Npos (XO (XI (XI (XI XH))))) v)
+                      (N.leb v (Npos (XI (XO (XI (XO (XO XH)))))))
+                 then Some (SetForegroundColor (Indexed
+                        (N.sub v (Npos (XO (XI (XI (XI XH))))))))
+                 else if (&&) (N.leb (Npos (XO (XO (XO (XI (XO XH)))))) v)
+                           (N.leb v (Npos (XI (XI (XI (XI (XO XH)))))))
+                      then Some (SetBackgroundColor (Indexed
+                             (N.sub v (Npos (XO (XO (XO (XI (XO XH)))))))))
+                      else if (&&)
+                                (N.leb (Npos (XO (XI (XO (XI (XI (XO
+                                  XH))))))) v)
+                                (N.leb v (Npos (XI (XO (XO (XO (XO (XI
+                                  XH))))))))
+                           then Some (SetForegroundColor (Indexed
+                                  (N.add
+                                    (N.sub v (Npos (XO (XI (XO (XI (XI (XO
+                                      XH)))))))) (Npos (XO (XO (XO XH)))))))
+                           else if (&&)
+                                     (N.leb (Npos (XO (XO (XI (XO (XO (XI
+                                       XH))))))) v)
+                                     (N.leb v (Npos (XI (XI (XO (XI (XO (XI
+                                       XH))))))))
+                                then Some (SetBackgroundColor (Indexed
+                                       (N.add
+                                         (N.sub v (Npos (XO (XO (XI (XO (XO
+                                           (XI XH)))))))) (Npos (XO (XO (XO
+                                         XH)))))))
+                                else None)
+            | XH ->
+              if (&&) (N.leb (Npos (XO (XI (XI (XI XH))))) v)
+                   (N.leb v (Npos (XI (XO (XI (XO (XO XH)))))))
+              then Some (SetForegroundColor (Indexed
+                     (N.sub v (Npos (XO (XI (XI (XI XH))))))))
+              else if (&&) (N.leb (Npos (XO (XO (XO (XI (XO XH)))))) v)
+                        (N.leb v (Npos (XI (XI (XI (XI (XO XH)))))))
+                   then Some (SetBackgroundColor (Indexed
+                          (N.sub v (Npos (XO (XO (XO (XI (XO XH)))))))))
+                   else if (&&)
+                             (N.leb (Npos (XO (XI (XO (XI (XI (XO XH))))))) v)
+                             (N.leb v (Npos (XI (XO (XO (XO (XO (XI XH))))))))
+                        then Some (SetForegroundColor (Indexed
+                               (N.add
+                                 (N.sub v (Npos (XO (XI (XO (XI (XI (XO
+                                   XH)))))))) (Npos (XO (XO (XO XH)))))))
+                        else if (&&)
+                                  (N.leb (Npos (XO (XO (XI (XO (XO (XI
+                                    XH))))))) v)
+                                  (N.leb v (Npos (XI (XI (XO (XI (XO (XI
+                                    XH))))))))
+                             then Some (SetBackgroundColor (Indexed
+                                    (N.add
+                                      (N.sub v (Npos (XO (XO (XI (XO (XO (XI
+                                        XH)))))))) (Npos (XO (XO (XO XH)))))))
+                             else None)
+         | XO p2 ->
+           (match p2 with
+            | XI p3 ->
+              (match p3 with
+               | XH -> Some ResetBlink
+               | _ ->
+                 if (&&) (N.leb (Npos (XO (XI (XI (XI XH))))) v)
+                      (N.leb v (Npos (XI (XO (XI (XO (XO XH)))))))
+                 then Some (SetForegroundColor (Indexed
+                        (N.sub v (Npos (XO (XI (XI (XI XH))))))))
+                 else if (&&) (N.leb (Npos (XO (XO (XO (XI (XO XH)))))) v)
+                           (N.leb v (Npos (XI (XI (XI (XI (XO XH)))))))
+                      then Some (SetBackgroundColor (Indexed
+                             (N.sub v (Npos (XO (XO (XO (XI (XO XH)))))))))
+                      else if (&&)
+                                (N.leb (Npos (XO (XI (XO (XI (XI (XO
+                                  XH))))))) v)
+                                (N.leb v (Npos (XI (XO (XO (XO (XO (XI
+                                  XH))))))))
+                           then Some (SetForegroundColor (Indexed
+                                  (N.add
+                                    (N.sub v (Npos (XO (XI (XO (XI (XI (XO
+                                      XH)))))))) (Npos (XO (XO (XO XH)))))))
+                           else if (&&)
+                                     (N.leb (Npos (XO (XO (XI (XO (XO (XI
+                                       XH))))))) v)
+                                     (N.leb v (Npos (XI (XI (XO (XI (XO (XI
+                                       XH))))))))
+                                then Some (SetBackgroundColor (Indexed
+                                       (N.add
+                                         (N.sub v (Npos (XO (XO (XI (XO (XO
+                                           (XI XH)))))))) (Npos (XO (XO (XO
+                                         XH)))))))
+                                else None)
+            | XO p3 ->
+              (match p3 with
+               | XI p4 ->
+                 (match p4 with
+                  | XH -> Some ResetBackgroundColor
+                  | _ ->
+                    if (&&) (N.leb (Npos (XO (XI (XI (XI XH))))) v)
+                         (N.leb v (Npos (XI (XO (XI (XO (XO XH)))))))
+                    then Some (SetForegroundColor (Indexed
+                           (N.sub v (Npos (XO (XI (XI (XI XH))))))))
+                    else if (&&) (N.leb (Npos (XO (XO (XO (XI (XO XH)))))) v)
+                              (N.leb v (Npos (XI (XI (XI (XI (XO XH)))))))
+                         then Some (SetBackgroundColor (Indexed
+                                (N.sub v (Npos (XO (XO (XO (XI (XO XH)))))))))
+                         else if (&&)
+                                   (N.leb (Npos (XO (XI (XO (XI (XI (XO
+                                     XH))))))) v)
+                                   (N.leb v (Npos (XI (XO (XO (XO (XO (XI
+                                     XH))))))))
+                              then Some (SetForegroundColor (Indexed
+                                     (N.add
+                                       (N.sub v (Npos (XO (XI (XO (XI (XI (XO
+                                         XH)))))))) (Npos (XO (XO (XO XH)))))))
+                              else if (&&)
+                                        (N.leb (Npos (XO (XO (XI (XO (XO (XI
+                                          XH))))))) v)
+                                        (N.leb v (Npos (XI (XI (XO (XI (XO
+                                          (XI XH))))))))
+                                   then Some (SetBackgroundColor (Indexed
+                                          (N.add
+                                            (N.sub v (Npos (XO (XO (XI (XO
+                                              (XO (XI XH)))))))) (Npos (XO
+                                            (XO (XO XH)))))))
+                                   else None)
+               | _ ->
+                 if (&&) (N.leb (Npos (XO (XI (XI (XI XH))))) v)
+                      (N.leb v (Npos (XI (XO (XI (XO (XO XH)))))))
+                 then Some (SetForegroundColor (Indexed
+                        (N.sub v (Npos (XO (XI (XI (XI XH))))))))
+                 else if (&&) (N.leb (Npos (XO (XO (XO (XI (XO XH)))))) v)
+                           (N.leb v (Npos (XI (XI (XI (XI (XO XH)))))))
+                      then Some (SetBackgroundColor (Indexed
+                             (N.sub v (Npos (XO (XO (XO (XI (XO XH)))))))))
+                      else if (&&)
+                                (N.leb (Npos (XO (XI (XO (XI (XI (XO
+                                  XH))))))) v)
+                                (N.leb v (Npos (XI (XO (XO (XO (XO (XI
+                                  XH))))))))
+                           then Some (SetForegroundColor (Indexed
+                                  (N.add
+                                    (N.sub v (Npos (XO (XI (XO (XI (XI (XO
+                                      XH)))))))) (Npos (XO (XO (XO XH)))))))
+                           else if (&&)
+                                     (N.leb (Npos (XO (XO (XI (XO (XO (XI
+                                       XH))))))) v)
+                                     (N.leb v (Npos (XI (XI (XO (XI (XO (XI
+                                       XH))))))))
+                                then Some (SetBackgroundColor (Indexed
+                                       (N.add
+                                         (N.sub v (Npos (XO (XO (XI (XO (XO
+                                           (XI XH)))))))) (Npos (XO (XO (XO
+                                         XH)))))))
+                                else None)
+            | XH -> Some SetStrikethrough)
+         | XH -> Some SetBlink)
+      | XH -> Some SetItalic)
+   | XO p0 ->
+     (match p0 with
+      | XI p1 ->
+        (match p1 with
+         | XI p2 ->
+           (match p2 with
+            | XO p3 ->
+              (match p3 with
+               | XH -> Some ResetIntensity
+               | _ ->
+                 if (&&) (N.leb (Npos (XO (XI (XI (XI XH))))) v)
+                      (N.leb v (Npos (XI (XO (XI (XO (XO XH)))))))
+                 then Some (SetForegroundColor (Indexed
+                        (N.sub v (Npos (XO (XI (XI (XI XH))))))))
+                 else if (&&) (N.leb (Npos (XO (XO (XO (XI (XO XH)))))) v)
+                           (N.leb v (Npos (XI (XI (XI (XI (XO XH)))))))
+                      then Some (SetBackgroundColor (Indexed
+                             (N.sub v (Npos (XO (XO (XO (XI (XO XH)))))))))
+                      else if (&&)
+                                (N.leb (Npos (XO (XI (XO (XI (XI (XO
+                                  XH))))))) v)
+                                (N.leb v (Npos (XI (XO (XO (XO (XO (XI
+                                  XH))))))))
+                           then Some (SetForegroundColor (Indexed
+                                  (N.add
+                                    (N.sub v (Npos (XO (XI (XO (XI (XI (XO
+                                      XH)))))))) (Npos (XO (XO (XO XH)))))))
+                           else if (&&)
+                                     (N.leb (Npos (XO (XO (XI (XO (XO (XI
+                                       XH))))))) v)
+                                     (N.leb v (Npos (XI (XI (XO (XI (XO (XI
+                                       XH))))))))
+                                then Some (SetBackgroundColor (Indexed
+                                       (N.add
+                                         (N.sub v (Npos (XO (XO (XI (XO (XO
+                                           (XI XH)))))))) (Npos (XO (XO (XO
+                                         XH)))))))
+                                else None)
+            | _ ->
+              if (&&) (N.leb (Npos (XO (XI (XI (XI XH))))) v)
+                   (N.leb v (Npos (XI (XO (XI (XO (XO XH)))))))
+              then Some (SetForegroundColor (Indexed
+                     (N.sub v (Npos (XO (XI (XI (XI XH))))))))
+              else if (&&) (N.leb (Npos (XO (XO (XO (XI (XO XH)))))) v)
+                        (N.leb v (Npos (XI (XI (XI (XI (XO XH)))))))
+                   then Some (SetBackgroundColor (Indexed
+                          (N.sub v (Npos (XO (XO (XO (XI (XO XH)))))))))
+                   else if (&&)
+                             (N.leb (Npos (XO (XI (XO (XI (XI (XO XH))))))) v)
+                             (N.leb v (Npos (XI (XO (XO (XO (XO (XI XH))))))))
+                        then Some (SetForegroundColor (Indexed
+                               (N.add
+                                 (N.sub v (Npos (XO (XI (XO (XI (XI (XO
+                                   XH)))))))) (Npos (XO (XO (XO XH)))))))
+                        else if (&&)
+                                  (N.leb (Npos (XO (XO (XI (XO (XO (XI
+                                    XH))))))) v)
+                                  (N.leb v (Npos (XI (XI (XO (XI (XO (XI
+                                    XH))))))))
+                             then Some (SetBackgroundColor (Indexed
+                                    (N.add
+                                      (N.sub v (Npos (XO (XO (XI (XO (XO (XI
+                                        XH)))))))) (Npos (XO (XO (XO XH)))))))
+                             else None)
+         | _ ->
+           if (&&) (N.leb (Npos (XO (XI (XI (XI XH))))) v)
+                (N.leb v (Npos (XI (XO (XI (XO (XO XH)))))))
+           then Some (SetForegroundColor (Indexed
+                  (N.sub v (Npos (XO (XI (XI (XI XH))))))))
+           else if (&&) (N.leb (Npos (XO (XO (XO (XI (XO XH)))))) v)
+                     (N.leb v (Npos (XI (XI (XI (XI (XO XH)))))))
+                then Some (SetBackgroundColor (Indexed
+                       (N.sub v (Npos (XO (XO (XO (XI (XO XH)))))))))
+                else if (&&)
+                          (N.leb (Npos (XO (XI (XO (XI (XI (XO XH))))))) v)
+                          (N.leb v (Npos (XI (XO (XO (XO (XO (XI XH))))))))
+                     then Some (SetForegroundColor (Indexed
+                            (N.add
+                              (N.sub v (Npos (XO (XI (XO (XI (XI (XO
+                                XH)))))))) (Npos (XO (XO (XO XH)))))))
+                     else if (&&)
+                               (N.leb (Npos (XO (XO (XI (XO (XO (XI XH)))))))
+                                 v)
+                               (N.leb v (Npos (XI (XI (XO (XI (XO (XI
+                                 XH))))))))
+                          then Some (SetBackgroundColor (Indexed
+                                 (N.add
+                                   (N.sub v (Npos (XO (XO (XI (XO (XO (XI
+                                     XH)))))))) (Npos (XO (XO (XO XH)))))))
+                          else None)
+      | XO p1 ->
+        (match p1 with
+         | XI _ ->
+           if (&&) (N.leb (Npos (XO (XI (XI (XI XH))))) v)
+                (N.leb v (Npos (XI (XO (XI (XO (XO XH)))))))
+           then Some (SetForegroundColor (Indexed
+                  (N.sub v (Npos (XO (XI (XI (XI XH))))))))
+           else if (&&) (N.leb (Npos (XO (XO (XO (XI (XO XH)))))) v)
+                     (N.leb v (Npos (XI (XI (XI (XI (XO XH)))))))
+                then Some (SetBackgroundColor (Indexed
+                       (N.sub v (Npos (XO (XO (XO (XI (XO XH)))))))))
+                else if (&&)
+                          (N.leb (Npos (XO (XI (XO (XI (XI (XO XH))))))) v)
+                          (N.leb v (Npos (XI (XO (XO (XO (XO (XI XH))))))))
+                     then Some (SetForegroundColor (Indexed
+                            (N.add
+                              (N.sub v (Npos (XO (XI (XO (XI (XI (XO
+                                XH)))))))) (Npos (XO (XO (XO XH)))))))
+                     else if (&&)
+                               (N.leb (Npos (XO (XO (XI (XO (XO (XI XH)))))))
+                                 v)
+                               (N.leb v (Npos (XI (XI (XO (XI (XO (XI
+                                 XH))))))))
+                          then Some (SetBackgroundColor (Indexed
+                                 (N.add
+                                   (N.sub v (Npos (XO (XO (XI (XO (XO (XI
+                                     XH)))))))) (Npos (XO (XO (XO XH)))))))
+                          else None
+         | XO p2 ->
+           (match p2 with
+            | XI p3 ->
+              (match p3 with
+               | XH -> Some ResetUnderline
+               | _ ->
+                 if (&&) (N.leb (Npos (XO (XI (XI (XI XH))))) v)
+                      (N.leb v (Npos (XI (XO (XI (XO (XO XH)))))))
+                 then Some (SetForegroundColor (Indexed
+                        (N.sub v (Npos (XO (XI (XI (XI XH))))))))
+                 else if (&&) (N.leb (Npos (XO (XO (XO (XI (XO XH)))))) v)
+                           (N.leb v (Npos (XI (XI (XI (XI (XO XH)))))))
+                      then Some (SetBackgroundColor (Indexed
+                             (N.sub v (Npos (XO (XO (XO (XI (XO XH)))))))))
+                      else if (&&)
+                                (N.leb (Npos (XO (XI (XO (XI (XI (XO
+                                  XH))))))) v)
+                                (N.leb v (Npos (XI (XO (XO (XO (XO (XI
+                                  XH))))))))
+                           then Some (SetForegroundColor (Indexed
+                                  (N.add
+                                    (N.sub v (Npos (XO (XI (XO (XI (XI (XO
+                                      XH)))))))) (Npos (XO (XO (XO XH)))))))
+                           else if (&&)
+                                     (N.leb (Npos (XO (XO (XI (XO (XO (XI
+                                       XH))))))) v)
+                                     (N.leb v (Npos (XI (XI (XO (XI (XO (XI
+                                       XH))))))))
+                                then Some (SetBackgroundColor (Indexed
+                                       (N.add
+                                         (N.sub v (Npos (XO (XO (XI (XO (XO
+                                           (XI XH)))))))) (Npos (XO (XO (XO
+                                         XH)))))))
+                                else None)
+            | _ ->
+              if (&&) (N.leb (Npos (XO (XI (XI (XI XH))))) v)
+                   (N.leb v (Npos (XI (XO (XI (XO (XO XH)))))))
+              then Some (SetForegroundColor (Indexed
+                     (N.sub v (Npos (XO (XI (XI (XI XH))))))))
+              else if (&&) (N.leb (Npos (XO (XO (XO (XI (XO XH)))))) v)
+                        (N.leb v (Npos (XI (XI (XI (XI (XO XH)))))))
+                   then Some (SetBackgroundColor (Indexed
+                          (N.sub v (Npos (XO (XO (XO (XI (XO XH)))))))))
+                   else if (&&)
+                             (N.leb (Npos (XO (XI (XO (XI (XI (XO XH))))))) v)
+                             (N.leb v (Npos (XI (XO (XO (XO (XO (XI XH))))))))
+                        then Some (SetForegroundColor (Indexed
+                               (N.add
+                                 (N.sub v (Npos (XO (XI (XO (XI (XI (XO
+                                   XH)))))))) (Npos (XO (XO (XO XH)))))))
+                        else if (&&)
+                                  (N.leb (Npos (XO (XO (XI (XO (XO (XI
+                                    XH))))))) v)
+                                  (N.leb v (Npos (XI (XI (XO (XI (XO (XI
+                                    XH))))))))
+                             then Some (SetBackgroundColor (Indexed
+                                    (N.add
+                                      (N.sub v (Npos (XO (XO (XI (XO (XO (XI
+                                        XH)))))))) (Npos (XO (XO (XO XH)))))))
+                             else None)
+         | XH -> Some SetUnderline)
+      | XH -> Some SetFaintIntensity)
+   | XH -> Some SetBoldIntensity)
+
+(** val byte : n -> n **)
+
+let byte n0 =
+  N.modulo n0 (Npos (XO (XO (XO (XO (XO (XO (XO (XO XH)))))))))
+
+(** val first_part : n list -> n **)
+
+let first_part l =
+  hd N0 l
+
+(** val spec_sgr : nat -> n list list -> sgr_op list **)
+
+let rec spec_sgr fuel ps =
+  match fuel with
+  | O -> []
+  | S fuel0 ->
+    let cons_opt = fun o r -> match o with
+                              | Some x -> x :: r
+                              | None -> r in
+    (match ps with
+     | [] -> []
+     | l :: rest ->
+       (match l with
+        | [] -> spec_sgr fuel0 rest
+        | v :: l0 ->
+          (match l0 with
+           | [] ->
+             if (||) (N.eqb v (Npos (XO (XI (XI (XO (XO XH)))))))
+                  (N.eqb v (Npos (XO (XO (XO (XO (XI XH)))))))
+             then let mk = fun c ->
+                    if N.eqb v (Npos (XO (XI (XI (XO (XO XH))))))
+                    then SetForegroundColor c
+                    else SetBackgroundColor c
+                  in
+                  (match rest with
+                   | [] -> spec_sgr fuel0 rest
+                   | l1 :: rest' ->
+                     (match l1 with
+                      | [] -> spec_sgr fuel0 rest
+                      | n0 :: l2 ->
+                        (match n0 with
+                         | N0 -> spec_sgr fuel0 rest
+                         | Npos p ->
+                           (match p with
+                            | XI p0 ->
+                              (match p0 with
+                               | XO p1 ->
+                                 (match p1 with
+                                  | XH ->
+                                    (match l2 with
+                                     | [] ->
+                                       (match rest' with
+                                        | [] -> spec_sgr fuel0 rest'
+                                        | i :: rest'0 ->
+                                          (mk (Indexed (byte (first_part i)))) :: 
+                                            (spec_sgr fuel0 rest'0))
+                                     | _ :: _ -> spec_sgr fuel0 rest)
+                                  | _ -> spec_sgr fuel0 rest)
+                               | _ -> spec_sgr fuel0 rest)
+                            | XO p0 ->
+                              (match p0 with
+                               | XH ->
+                                 (match l2 with
+                                  | [] ->
+                                    (match rest' with
+                                     | [] -> spec_sgr fuel0 rest'
+                                     | r :: l3 ->
+                                       (match l3 with
+                                        | [] -> spec_sgr fuel0 rest'
+                                        | g :: l4 ->
+                                          (match l4 with
+                                           | [] -> spec_sgr fuel0 rest'
+                                           | b :: rest'0 ->
+                                             (mk (RGB ((byte (first_part r)),
+                                               (byte (first_part g)),
+                                               (byte (first_part b))))) :: 
+                                               (spec_sgr fuel0 rest'0))))
+                                  | _ :: _ -> spec_sgr fuel0 rest)
+                               | _ -> spec_sgr fuel0 rest)
+                            | XH -> spec_sgr fuel0 rest))))
+             else cons_opt (spec_sgr_code v) (spec_sgr fuel0 rest)
+           | n0 :: l1 ->
+             (match n0 with
+              | N0 -> spec_sgr fuel0 rest
+              | Npos p ->
+                (match p with
+                 | XI p0 ->
+                   (match p0 with
+                    | XO p1 ->
+                      (match p1 with
+                       | XH ->
+                         (match l1 with
+                          | [] -> spec_sgr fuel0 rest
+                          | i :: l2 ->
+                            (match l2 with
+                             | [] ->
+                               if N.eqb v (Npos (XO (XI (XI (XO (XO XH))))))
+                               then (SetForegroundColor (Indexed
+                                      (byte i))) :: (spec_sgr fuel0 rest)
+                               else if N.eqb v (Npos (XO (XO (XO (XO (XI
+                                         XH))))))
+                                    then (SetBackgroundColor (Indexed
+                                           (byte i))) :: (spec_sgr fuel0 rest)
+                                    else spec_sgr fuel0 rest
+                             | _ :: _ -> spec_sgr fuel0 rest))
+                       | _ -> spec_sgr fuel0 rest)
+                    | _ -> spec_sgr fuel0 rest)
+                 | XO p0 ->
+                   (match p0 with
+                    | XH ->
+                      (match l1 with
+                       | [] -> spec_sgr fuel0 rest
+                       | r :: l2 ->
+                         (match l2 with
+                          | [] -> spec_sgr fuel0 rest
+                          | r0 :: l3 ->
+                            (match l3 with
+                             | [] -> spec_sgr fuel0 rest
+                             | g :: l4 ->
+                               (match l4 with
+                                | [] ->
+                                  if N.eqb v (Npos (XO (XI (XI (XO (XO
+                                       XH))))))
+                                  then (SetForegroundColor (RGB ((byte r),
+                                         (byte r0),
+                                         (byte g)))) :: (spec_sgr fuel0 rest)
+                                  else if N.eqb v (Npos (XO (XO (XO (XO (XI
+                                            XH))))))
+                                       then (SetBackgroundColor (RGB
+                                              ((byte r), (byte r0),
+                                              (byte g)))) :: (spec_sgr fuel0
+                                                               rest)
+                                       else spec_sgr fuel0 rest
+                                | b :: l5 ->
+                                  (match l5 with
+                                   | [] ->
+                                     if N.eqb v (Npos (XO (XI (XI (XO (XO
+                                          XH))))))
+                                     then (SetForegroundColor (RGB
+                                            ((byte r0), (byte g),
+                                            (byte b)))) :: (spec_sgr fuel0
+                                                             rest)
+                                     else if N.eqb v (Npos (XO (XO (XO (XO
+                                               (XI XH))))))
+                                          then (SetBackgroundColor (RGB
+                                                 ((byte r0), (byte g),
+                                                 (byte b)))) :: (spec_sgr
+                                                                  fuel0 rest)
+                                          else spec_sgr fuel0 rest
+                                   | _ :: _ -> spec_sgr fuel0 rest)))))
+                    | _ -> spec_sgr fuel0 rest)
+                 | XH -> spec_sgr fuel0 rest)))))
+
+(** val spec_sgr_params : param list -> sgr_op list **)
+
+let spec_sgr_params ps =
+  spec_sgr (S (length ps)) (map pparts ps)
+
+(** val is_stop : nat list -> nat -> bool **)
+
+let is_stop l k =
+  existsb (Nat.eqb k) l
+
+(** val default_stop : nat -> nat -> bool **)
+
+let default_stop c k =
+  (&&) ((&&) (Nat.ltb O k) (Nat.ltb k c))
+    (Nat.eqb (Nat.modulo k (S (S (S (S (S (S (S (S O))))))))) O)
+
+(** val saved_of : term -> btype -> saved_ctx **)
+
+let saved_of t s =
+  if btype_eqb t.active s then t.sctx else t.asctx
+
+(** val spec_saved_now : term -> saved_ctx **)
+
+let spec_saved_now t =
+  { sc_col = (viscol t); sc_row = t.cur_row; sc_pen = t.tpen; sc_origin =
+    t.org; sc_awm = t.awm }
+
+(** val spec_restore : term -> term **)
+
+let spec_restore t =
+  let c = t.sctx in
+  set (fun t0 -> t0.pend) (fun f ->
+    let b = fun r -> f r.pend in
+    (fun x -> { cols = x.cols; rows = x.rows; buf = x.buf; other = x.other;
+    active = x.active; sb_limit = x.sb_limit; cur_col = x.cur_col; cur_row =
+    x.cur_row; cur_vis = x.cur_vis; tpen = x.tpen; cs0 = x.cs0; cs1 = x.cs1;
+    acs = x.acs; tabs = x.tabs; ins = x.ins; org = x.org; awm = x.awm; nlm =
+    x.nlm; ckm = x.ckm; pend = (b x); top = x.top; bot = x.bot; sctx =
+    x.sctx; asctx = x.asctx; dirty = x.dirty; xtw = x.xtw })) (fun _ ->
+    false)
+    (set (fun t0 -> t0.awm) (fun f ->
+      let b = fun r -> f r.awm in
+      (fun x -> { cols = x.cols; rows = x.rows; buf = x.buf; other = x.other;
+      active = x.active; sb_limit = x.sb_limit; cur_col = x.cur_col;
+      cur_row = x.cur_row; cur_vis = x.cur_vis; tpen = x.tpen; cs0 = x.cs0;
+      cs1 = x.cs1; acs = x.acs; tabs = x.tabs; ins = x.ins; org = x.org;
+      awm = (b x); nlm = x.nlm; ckm = x.ckm; pend = x.pend; top = x.top;
+      bot = x.bot; sctx = x.sctx; asctx = x.asctx; dirty = x.dirty; xtw =
+      x.xtw })) (fun _ -> c.sc_awm)
+      (set (fun t0 -> t0.org) (fun f ->
+        let b = fun r -> f r.org in
+        (fun x -> { cols = x.cols; rows = x.rows; buf = x.buf; other =
+        x.other; active = x.active; sb_limit = x.sb_limit; cur_col =
+        x.cur_col; cur_row = x.cur_row; cur_vis = x.cur_vis; tpen = x.tpen;
+        cs0 = x.cs0; cs1 = x.cs1; acs = x.acs; tabs = x.tabs; ins = x.ins;
+        org = (b x); awm = x.awm; nlm = x.nlm; ckm = x.ckm; pend = x.pend;
+        top = x.top; bot = x.bot; sctx = x.sctx; asctx = x.asctx; dirty =
+        x.dirty; xtw = x.xtw })) (fun _ -> c.sc_origin)
+        (set (fun t0 -> t0.tpen) (fun f ->
+          let p = fun r -> f r.tpen in
+          (fun x -> { cols = x.cols; rows = x.rows; buf = x.buf; other =
+          x.other; active = x.active; sb_limit = x.sb_limit; cur_col =
+          x.cur_col; cur_row = x.cur_row; cur_vis = x.cur_vis; tpen = 
+          (p x); cs0 = x.cs0; cs1 = x.cs1; acs = x.acs; tabs = x.tabs; ins =
+          x.ins; org = x.org; awm = x.awm; nlm = x.nlm; ckm = x.ckm; pend =
+          x.pend; top = x.top; bot = x.bot; sctx = x.sctx; asctx = x.asctx;
+          dirty = x.dirty; xtw = x.xtw })) (fun _ -> c.sc_pen)
+          (set (fun t0 -> t0.cur_row) (fun f ->
+            let n0 = fun r -> f r.cur_row in
+            (fun x -> { cols = x.cols; rows = x.rows; buf = x.buf; other =
+            x.other; active = x.active; sb_limit = x.sb_limit; cur_col =
+            x.cur_col; cur_row = (n0 x); cur_vis = x.cur_vis; tpen = x.tpen;
+            cs0 = x.cs0; cs1 = x.cs1; acs = x.acs; tabs = x.tabs; ins =
+            x.ins; org = x.org; awm = x.awm; nlm = x.nlm; ckm = x.ckm; pend =
+            x.pend; top = x.top; bot = x.bot; sctx = x.sctx; asctx = x.asctx;
+            dirty = x.dirty; xtw = x.xtw })) (fun _ -> c.sc_row)
+            (set (fun t0 -> t0.cur_col) (fun f ->
+              let n0 = fun r -> f r.cur_col in
+              (fun x -> { cols = x.cols; rows = x.rows; buf = x.buf; other =
+              x.other; active = x.active; sb_limit = x.sb_limit; cur_col =
+              (n0 x); cur_row = x.cur_row; cur_vis = x.cur_vis; tpen =
+              x.tpen; cs0 = x.cs0; cs1 = x.cs1; acs = x.acs; tabs = x.tabs;
+              ins = x.ins; org = x.org; awm = x.awm; nlm = x.nlm; ckm =
+              x.ckm; pend = x.pend; top = x.top; bot = x.bot; sctx = x.sctx;
+              asctx = x.asctx; dirty = x.dirty; xtw = x.xtw })) (fun _ ->
+              c.sc_col) t)))))
+
+(** val line_ok : nat -> line -> bool **)
+
+let line_ok c l =
+  Nat.eqb (length l.cells) c
+
+(** val last_unwrapped : line list -> bool **)
+
+let last_unwrapped ls =
+  match last_opt ls with
+  | Some l -> negb l.wrapped
+  | None -> false
+
+(** val buffer_geom_ok : buffer -> bool **)
+
+let buffer_geom_ok b =
+  (&&)
+    ((&&)
+      ((&&) ((&&) (Nat.leb (S O) b.bcols) (Nat.leb (S O) b.brows))
+        (Nat.leb b.brows (length b.lines)))
+      (forallb (line_ok b.bcols) b.lines)) (last_unwrapped b.lines)
+
+(** val geom_ok : term -> bool **)
+
+let geom_ok t =
+  (&&)
+    ((&&)
+      ((&&)
+        ((&&)
+          ((&&)
+            ((&&)
+              ((&&) ((&&) (Nat.leb (S O) t.cols) (Nat.leb (S O) t.rows))
+                (Nat.eqb t.buf.bcols t.cols)) (Nat.eqb t.buf.brows t.rows))
+            (buffer_geom_ok t.buf)) (Nat.ltb t.cur_row t.rows))
+        (Nat.leb t.cur_col t.cols)) (eqb t.pend (Nat.eqb t.cur_col t.cols)))
+    (Nat.eqb (length t.dirty) t.rows)
+
+(** val strictly_increasing_below : nat -> nat option -> nat list -> bool **)
+
+let rec strictly_increasing_below bound prev = function
+| [] -> true
+| x :: r ->
+  (&&)
+    ((&&) (Nat.ltb x bound)
+      (match prev with
+       | Some p -> Nat.ltb p x
+       | None -> true)) (strictly_increasing_below bound (Some x) r)
+
+(** val inrng : n -> n -> n -> bool **)
+
+let inrng lo hi c =
+  (&&) (N.leb lo c) (N.leb c hi)
+
+type strkind =
+| KOsc
+| KDcs
+| KSos
+
+(** val payload_ok : strkind -> n -> bool **)
+
+let payload_ok k c =
+  (&&)
+    ((||)
+      ((||)
+        (inrng (Npos (XO (XO (XO (XO (XO XH)))))) (Npos (XI (XI (XI (XI (XI
+          (XI XH))))))) c)
+        (N.leb (Npos (XO (XO (XO (XO (XO (XI (XO XH)))))))) c))
+      ((&&) (inrng N0 (Npos (XI (XI (XI (XI XH))))) c)
+        (negb
+          ((||)
+            ((||) (N.eqb c (Npos (XO (XO (XO (XI XH))))))
+              (N.eqb c (Npos (XO (XI (XO (XI XH)))))))
+            (N.eqb c (Npos (XI (XI (XO (XI XH))))))))))
+    (negb (match k with
+           | KOsc -> N.eqb c (Npos (XI (XI XH)))
+           | _ -> false))
+
+(** val skip_string : strkind -> n list -> n list option **)
+
+let rec skip_string k = function
+| [] -> None
+| c :: r ->
+  if N.eqb c (Npos (XO (XO (XI (XI (XI (XO (XO XH))))))))
+  then Some r
+  else if match k with
+          | KOsc -> N.eqb c (Npos (XI (XI XH)))
+          | _ -> false
+       then Some r
+       else if N.eqb c (Npos (XI (XI (XO (XI XH)))))
+            then (match r with
+                  | [] -> None
+                  | n0 :: r' ->
+                    (match n0 with
+                     | N0 -> None
+                     | Npos p ->
+                       (match p with
+                        | XO p0 ->
+                          (match p0 with
+                           | XO p1 ->
+                             (match p1 with
+                              | XI p2 ->
+                                (match p2 with
+                                 | XI p3 ->
+                                   (match p3 with
+                                    | XI p4 ->
+                                      (match p4 with
+                                       | XO p5 ->
+                                         (match p5 with
+                                          | XH -> Some r'
+                                          | _ -> None)
+                                       | _ -> None)
+                                    | _ -> None)
+                                 | _ -> None)
+                              | _ -> None)
+                           | _ -> None)
+                        | _ -> None)))
+            else if payload_ok k c then skip_string k r else None
+
+(** val csi_finals_plain : n list **)
+
+let csi_finals_plain =
+  (Npos (XO (XO (XO (XO (XO (XO XH))))))) :: ((Npos (XI (XO (XO (XO (XO (XO
+    XH))))))) :: ((Npos (XO (XI (XO (XO (XO (XO XH))))))) :: ((Npos (XI (XI
+    (XO (XO (XO (XO XH))))))) :: ((Npos (XO (XO (XI (XO (XO (XO
+    XH))))))) :: ((Npos (XI (XO (XI (XO (XO (XO XH))))))) :: ((Npos (XO (XI
+    (XI (XO (XO (XO XH))))))) :: ((Npos (XI (XI (XI (XO (XO (XO
+    XH))))))) :: ((Npos (XO (XO (XO (XI (XO (XO XH))))))) :: ((Npos (XI (XO
+    (XO (XI (XO (XO XH))))))) :: ((Npos (XO (XI (XO (XI (XO (XO
+    XH))))))) :: ((Npos (XI (XI (XO (XI (XO (XO XH))))))) :: ((Npos (XO (XO
+    (XI (XI (XO (XO XH))))))) :: ((Npos (XI (XO (XI (XI (XO (XO
+    XH))))))) :: ((Npos (XO (XO (XO (XO (XI (XO XH))))))) :: ((Npos (XI (XI
+    (XO (XO (XI (XO XH))))))) :: ((Npos (XO (XO (XI (XO (XI (XO
+    XH))))))) :: ((Npos (XI (XI (XI (XO (XI (XO XH))))))) :: ((Npos (XO (XO
+    (XO (XI (XI (XO XH))))))) :: ((Npos (XO (XI (XO (XI (XI (XO
+    XH))))))) :: ((Npos (XO (XO (XO (XO (XO (XI XH))))))) :: ((Npos (XI (XO
+    (XO (XO (XO (XI XH))))))) :: ((Npos (XO (XI (XO (XO (XO (XI
+    XH))))))) :: ((Npos (XO (XO (XI (XO (XO (XI XH))))))) :: ((Npos (XI (XO
+    (XI (XO (XO (XI XH))))))) :: ((Npos (XO (XI (XI (XO (XO (XI
+    XH))))))) :: ((Npos (XI (XI (XI (XO (XO (XI XH))))))) :: ((Npos (XO (XO
+    (XO (XI (XO (XI XH))))))) :: ((Npos (XO (XO (XI (XI (XO (XI
+    XH))))))) :: ((Npos (XI (XO (XI (XI (XO (XI XH))))))) :: ((Npos (XO (XI
+    (XO (XO (XI (XI XH))))))) :: ((Npos (XI (XI (XO (XO (XI (XI
+    XH))))))) :: ((Npos (XO (XO (XI (XO (XI (XI XH))))))) :: ((Npos (XI (XO
+    (XI (XO (XI (XI XH))))))) :: [])))))))))))))))))))))))))))))))))
+
+(** val mem_N : n -> n list -> bool **)
+
+let mem_N x l =
+  existsb (N.eqb x) l
+
+(** val csi_implemented : n option -> n list -> n -> bool **)
+
+let csi_implemented marker inters final =
+  match marker with
+  | Some n0 ->
+    (match n0 with
+     | N0 -> false
+     | Npos p ->
+       (match p with
+        | XI p0 ->
+          (match p0 with
+           | XI p1 ->
+             (match p1 with
+              | XI p2 ->
+                (match p2 with
+                 | XI p3 ->
+                   (match p3 with
+                    | XI p4 ->
+                      (match p4 with
+                       | XH ->
+                         (match inters with
+                          | [] ->
+                            (||)
+                              (N.eqb final (Npos (XO (XO (XO (XI (XO (XI
+                                XH))))))))
+                              (N.eqb final (Npos (XO (XO (XI (XI (XO (XI
+                                XH))))))))
+                          | _ :: _ -> false)
+                       | _ -> false)
+                    | _ -> false)
+                 | _ -> false)
+              | _ -> false)
+           | _ -> false)
+        | _ -> false))
+  | None ->
+    (match inters with
+     | [] -> mem_N final csi_finals_plain
+     | n0 :: l ->
+       (match n0 with
+        | N0 -> false
+        | Npos p ->
+          (match p with
+           | XI p0 ->
+             (match p0 with
+              | XO p1 ->
+                (match p1 with
+                 | XO p2 ->
+                   (match p2 with
+                    | XO p3 ->
+                      (match p3 with
+                       | XO p4 ->
+                         (match p4 with
+                          | XH ->
+                            (match l with
+                             | [] ->
+                               N.eqb final (Npos (XO (XO (XO (XO (XI (XI
+                                 XH)))))))
+                             | _ :: _ -> false)
+                          | _ -> false)
+                       | _ -> false)
+                    | _ -> false)
+                 | _ -> false)
+              | _ -> false)
+           | _ -> false)))
+
+(** val esc_implemented : n list -> n -> bool **)
+
+let esc_implemented inters final =
+  match inters with
+  | [] ->
+    mem_N final ((Npos (XO (XO (XI (XO (XO (XO XH))))))) :: ((Npos (XI (XO
+      (XI (XO (XO (XO XH))))))) :: ((Npos (XO (XO (XO (XI (XO (XO
+      XH))))))) :: ((Npos (XI (XO (XI (XI (XO (XO XH))))))) :: ((Npos (XI (XI
+      (XI (XO (XI XH)))))) :: ((Npos (XO (XO (XO (XI (XI XH)))))) :: ((Npos
+      (XI (XI (XO (XO (XO (XI XH))))))) :: ((Npos (XO (XO (XO (XO (XI (XO
+      XH))))))) :: ((Npos (XO (XO (XO (XI (XI (XO XH))))))) :: ((Npos (XI (XI
+      (XO (XI (XI (XO XH))))))) :: ((Npos (XI (XO (XI (XI (XI (XO
+      XH))))))) :: ((Npos (XO (XI (XI (XI (XI (XO XH))))))) :: ((Npos (XI (XI
+      (XI (XI (XI (XO XH))))))) :: [])))))))))))))
+  | n0 :: l ->
+    (match n0 with
+     | N0 -> false
+     | Npos p ->
+       (match p with
+        | XI p0 ->
+          (match p0 with
+           | XI p1 ->
+             (match p1 with
+              | XO p2 ->
+                (match p2 with
+                 | XO p3 ->
+                   (match p3 with
+                    | XO p4 ->
+                      (match p4 with
+                       | XH ->
+                         (match l with
+                          | [] ->
+                            N.eqb final (Npos (XO (XO (XO (XI (XI XH))))))
+                          | _ :: _ -> false)
+                       | _ -> false)
+                    | _ -> false)
+                 | _ -> false)
+              | _ -> false)
+           | XO p1 ->
+             (match p1 with
+              | XO p2 ->
+                (match p2 with
+                 | XI p3 ->
+                   (match p3 with
+                    | XO p4 ->
+                      (match p4 with
+                       | XH -> (match l with
+                                | [] -> true
+                                | _ :: _ -> false)
+                       | _ -> false)
+                    | _ -> false)
+                 | _ -> false)
+              | _ -> false)
+           | XH -> false)
+        | XO p0 ->
+          (match p0 with
+           | XO p1 ->
+             (match p1 with
+              | XO p2 ->
+                (match p2 with
+                 | XI p3 ->
+                   (match p3 with
+                    | XO p4 ->
+                      (match p4 with
+                       | XH -> (match l with
+                                | [] -> true
+                                | _ :: _ -> false)
+                       | _ -> false)
+                    | _ -> false)
+                 | _ -> false)
+              | _ -> false)
+           | _ -> false)
+        | XH -> false))
+
+(** val split_while : (n -> bool) -> n list -> n list * n list **)
+
+let split_while f s =
+  ((take_while f s), (skip_while f s))
+
+(** val parse_csi : n list -> (((n option * n list) * n) * n list) option **)
+
+let parse_csi s =
+  let (ps, r1) =
+    split_while
+      (inrng (Npos (XO (XO (XO (XO (XI XH)))))) (Npos (XI (XI (XI (XI (XI
+        XH))))))) s
+  in
+  let (is, r2) =
+    split_while
+      (inrng (Npos (XO (XO (XO (XO (XO XH)))))) (Npos (XI (XI (XI (XI (XO
+        XH))))))) r1
+  in
+  (match r2 with
+   | [] -> None
+   | f :: rest ->
+     if inrng (Npos (XO (XO (XO (XO (XO (XO XH))))))) (Npos (XO (XI (XI (XI
+          (XI (XI XH))))))) f
+     then let marker =
+            match ps with
+            | [] -> None
+            | m :: _ ->
+              if inrng (Npos (XO (XO (XI (XI (XI XH)))))) (Npos (XI (XI (XI
+                   (XI (XI XH)))))) m
+              then Some m
+              else None
+          in
+          let tail = match marker with
+                     | Some _ -> tl ps
+                     | None -> ps in
+          if (&&)
+               (forallb (fun c ->
+                 inrng (Npos (XO (XO (XO (XO (XI XH)))))) (Npos (XI (XI (XO
+                   (XI (XI XH)))))) c) tail)
+               (negb
+                 (match ps with
+                  | [] -> false
+                  | n0 :: _ ->
+                    (match n0 with
+                     | N0 -> false
+                     | Npos p ->
+                       (match p with
+                        | XO p0 ->
+                          (match p0 with
+                           | XI p1 ->
+                             (match p1 with
+                              | XO p2 ->
+                                (match p2 with
+                                 | XI p3 ->
+                                   (match p3 with
+                                    | XI p4 ->
+                                      (match p4 with
+                                       | XH -> true
+                                       | _ -> false)
+                                    | _ -> false)
+                                 | _ -> false)
+                              | _ -> false)
+                           | _ -> false)
+                        | _ -> false))))
+          then Some (((marker, is), f), rest)
+          else None
+     else None)
+
+(** val parse_esc : n list -> ((n list * n) * n list) option **)
+
+let parse_esc s =
+  let (is, r) =
+    split_while
+      (inrng (Npos (XO (XO (XO (XO (XO XH)))))) (Npos (XI (XI (XI (XI (XO
+        XH))))))) s
+  in
+  (match r with
+   | [] -> None
+   | f :: rest ->
+     if inrng (Npos (XO (XO (XO (XO (XI XH)))))) (Npos (XO (XI (XI (XI (XI
+          (XI XH))))))) f
+     then Some ((is, f), rest)
+     else None)
+
+(** val c0_unassigned : n -> bool **)
+
+let c0_unassigned c =
+  (||)
+    ((||)
+      ((||) (inrng N0 (Npos (XI (XI XH))) c)
+        (inrng (Npos (XO (XO (XO (XO XH))))) (Npos (XI (XI (XI (XO XH))))) c))
+      (N.eqb c (Npos (XI (XO (XO (XI XH)))))))
+    (inrng (Npos (XO (XO (XI (XI XH))))) (Npos (XI (XI (XI (XI XH))))) c)
+
+(** val c1_unassigned : n -> bool **)
+
+let c1_unassigned c =
+  (||)
+    ((||)
+      ((||)
+        ((||)
+          ((||)
+            ((||)
+              ((||)
+                ((||)
+                  ((||)
+                    (inrng (Npos (XO (XO (XO (XO (XO (XO (XO XH)))))))) (Npos
+                      (XI (XI (XO (XO (XO (XO (XO XH)))))))) c)
+                    (N.eqb c (Npos (XO (XI (XI (XO (XO (XO (XO XH))))))))))
+                  (N.eqb c (Npos (XI (XI (XI (XO (XO (XO (XO XH))))))))))
+                (inrng (Npos (XI (XO (XO (XI (XO (XO (XO XH)))))))) (Npos (XO
+                  (XO (XI (XI (XO (XO (XO XH)))))))) c))
+              (N.eqb c (Npos (XO (XI (XI (XI (XO (XO (XO XH))))))))))
+            (N.eqb c (Npos (XI (XI (XI (XI (XO (XO (XO XH))))))))))
+          (inrng (Npos (XI (XO (XO (XO (XI (XO (XO XH)))))))) (Npos (XI (XI
+            (XI (XO (XI (XO (XO XH)))))))) c))
+        (N.eqb c (Npos (XI (XO (XO (XI (XI (XO (XO XH))))))))))
+      (N.eqb c (Npos (XO (XI (XO (XI (XI (XO (XO XH))))))))))
+    (N.eqb c (Npos (XO (XO (XI (XI (XI (XO (XO XH)))))))))
+
+(** val inert_item : n list -> n list option **)
+
+let inert_item = function
+| [] -> None
+| c :: r ->
+  if (||) (c0_unassigned c) (c1_unassigned c)
+  then Some r
+  else if N.eqb c (Npos (XI (XO (XI (XI (XI (XO (XO XH))))))))
+       then skip_string KOsc r
+       else if N.eqb c (Npos (XO (XO (XO (XO (XI (XO (XO XH))))))))
+            then skip_string KDcs r
+            else if (||)
+                      ((||)
+                        (N.eqb c (Npos (XO (XO (XO (XI (XI (XO (XO XH)))))))))
+                        (N.eqb c (Npos (XO (XI (XI (XI (XI (XO (XO XH))))))))))
+                      (N.eqb c (Npos (XI (XI (XI (XI (XI (XO (XO XH)))))))))
+                 then skip_string KSos r
+                 else if N.eqb c (Npos (XI (XI (XO (XI (XI (XO (XO XH))))))))
+                      then (match parse_csi r with
+                            | Some p ->
+                              let (p0, rest) = p in
+                              let (p1, f) = p0 in
+                              let (m, is) = p1 in
+                              if csi_implemented m is f
+                              then None
+                              else Some rest
+                            | None -> None)
+                      else if N.eqb c (Npos (XI (XI (XO (XI XH)))))
+                           then (match r with
+                                 | [] ->
+                                   (match parse_esc r with
+                                    | Some p ->
+                                      let (p0, rest) = p in
+                                      let (is, f) = p0 in
+                                      if esc_implemented is f
+                                      then None
+                                      else Some rest
+                                    | None -> None)
+                                 | n0 :: r' ->
+                                   (match n0 with
+                                    | N0 ->
+                                      (match parse_esc r with
+                                       | Some p ->
+                                         let (p0, rest) = p in
+                                         let (is, f) = p0 in
+                                         if esc_implemented is f
+                                         then None
+                                         else Some rest
+                                       | None -> None)
+                                    | Npos p ->
+                                      (match p with
+                                       | XI p0 ->
+                                         (match p0 with
+                                          | XI p1 ->
+                                            (match p1 with
+                                             | XI p2 ->
+                                               (match p2 with
+                                                | XI p3 ->
+                                                  (match p3 with
+                                                   | XI p4 ->
+                                                     (match p4 with
+                                                      | XO p5 ->
+                                                        (match p5 with
+                                                         | XH ->
+                                                           skip_string KSos r'
+                                                         | _ ->
+                                                           (match parse_esc r with
+                                                            | Some p6 ->
+                                                              let (p7, rest) =
+                                                                p6
+                                                              in
+                                                              let (is, f) = p7
+                                                              in
+                                                              if esc_implemented
+                                                                   is f
+                                                              then None
+                                                              else Some rest
+                                                            | None -> None))
+                                                      | _ ->
+                                                        (match parse_esc r with
+                                                         | Some p5 ->
+                                                           let (p6, rest) = p5
+                                                           in
+                                                           let (is, f) = p6 in
+                                                           if esc_implemented
+                                                                is f
+                                                           then None
+                                                           else Some rest
+                                                         | None -> None))
+                                                   | _ ->
+                                                     (match parse_esc r with
+                                                      | Some p4 ->
+                                                        let (p5, rest) = p4 in
+                                                        let (is, f) = p5 in
+                                                        if esc_implemented is
+                                                             f
+                                                        then None
+                                                        else Some rest
+                                                      | None -> None))
+                                                | _ ->
+                                                  (match parse_esc r with
+                                                   | Some p3 ->
+                                                     let (p4, rest) = p3 in
+                                                     let (is, f) = p4 in
+                                                     if esc_implemented is f
+                                                     then None
+                                                     else Some rest
+                                                   | None -> None))
+                                             | XO p2 ->
+                                               (match p2 with
+                                                | XI p3 ->
+                                                  (match p3 with
+                                                   | XI p4 ->
+                                                     (match p4 with
+                                                      | XO p5 ->
+                                                        (match p5 with
+                                                         | XH ->
+                                                           (match parse_csi r' with
+                                                            | Some p6 ->
+                                                              let (p7, rest) =
+                                                                p6
+                                                              in
+                                                              let (p8, f) = p7
+                                                              in
+                                                              let (m, is) = p8
+                                                              in
+                                                              if csi_implemented
+                                                                   m is f
+                                                              then None
+                                                              else Some rest
+                                                            | None -> None)
+                                                         | _ ->
+                                                           (match parse_esc r with
+                                                            | Some p6 ->
+                                                              let (p7, rest) =
+                                                                p6
+                                                              in
+                                                              let (is, f) = p7
+                                                              in
+                                                              if esc_implemented
+                                                                   is f
+                                                              then None
+                                                              else Some rest
+                                                            | None -> None))
+                                                      | _ ->
+                                                        (match parse_esc r with
+                                                         | Some p5 ->
+                                                           let (p6, rest) = p5
+                                                           in
+                                                           let (is, f) = p6 in
+                                                           if esc_implemented
+                                                                is f
+                                                           then None
+                                                           else Some rest
+                                                         | None -> None))
+                                                   | _ ->
+                                                     (match parse_esc r with
+                                                      | Some p4 ->
+                                                        let (p5, rest) = p4 in
+                                                        let (is, f) = p5 in
+                                                        if esc_implemented is
+                                                             f
+                                                        then None
+                                                        else Some rest
+                                                      | None -> None))
+                                                | _ ->
+                                                  (match parse_esc r with
+                                                   | Some p3 ->
+                                                     let (p4, rest) = p3 in
+                                                     let (is, f) = p4 in
+                                                     if esc_implemented is f
+                                                     then None
+                                                     else Some rest
+                                                   | None -> None))
+                                             | XH ->
+                                               (match parse_esc r with
+                                                | Some p2 ->
+                                                  let (p3, rest) = p2 in
+                                                  let (is, f) = p3 in
+                                                  if esc_implemented is f
+                                                  then None
+                                                  else Some rest
+                                                | None -> None))
+                                          | XO p1 ->
+                                            (match p1 with
+                                             | XI p2 ->
+                                               (match p2 with
+                                                | XI p3 ->
+                                                  (match p3 with
+                                                   | XI p4 ->
+                                                     (match p4 with
+                                                      | XO p5 ->
+                                                        (match p5 with
+                                                         | XH ->
+                                                           skip_string KOsc r'
+                                                         | _ ->
+                                                           (match parse_esc r with
+                                                            | Some p6 ->
+                                                              let (p7, rest) =
+                                                                p6
+                                                              in
+                                                              let (is, f) = p7
+                                                              in
+                                                              if esc_implemented
+                                                                   is f
+                                                              then None
+                                                              else Some rest
+                                                            | None -> None))
+                                                      | _ ->
+                                                        (match parse_esc r with
+                                                         | Some p5 ->
+                                                           let (p6, rest) = p5
+                                                           in
+                                                           let (is, f) = p6 in
+                                                           if esc_implemented
+                                                                is f
+                                                           then None
+                                                           else Some rest
+                                                         | None -> None))
+                                                   | _ ->
+                                                     (match parse_esc r with
+                                                      | Some p4 ->
+                                                        let (p5, rest) = p4 in
+                                                        let (is, f) = p5 in
+                                                        if esc_implemented is
+                                                             f
+                                                        then None
+                                                        else Some rest
+                                                      | None -> None))
+                                                | _ ->
+                                                  (match parse_esc r with
+                                                   | Some p3 ->
+                                                     let (p4, rest) = p3 in
+                                                     let (is, f) = p4 in
+                                                     if esc_implemented is f
+                                                     then None
+                                                     else Some rest
+                                                   | None -> None))
+                                             | _ ->
+                                               (match parse_esc r with
+                                                | Some p2 ->
+                                                  let (p3, rest) = p2 in
+                                                  let (is, f) = p3 in
+                                                  if esc_implemented is f
+                                                  then None
+                                                  else Some rest
+                                                | None -> None))
+                                          | XH ->
+                                            (match parse_esc r with
+                                             | Some p1 ->
+                                               let (p2, rest) = p1 in
+                                               let (is, f) = p2 in
+                                               if esc_implemented is f
+                                               then None
+                                               else Some rest
+                                             | None -> None))
+                                       | XO p0 ->
+                                         (match p0 with
+                                          | XI p1 ->
+                                            (match p1 with
+                                             | XI p2 ->
+                                               (match p2 with
+                                                | XI p3 ->
+                                                  (match p3 with
+                                                   | XI p4 ->
+                                                     (match p4 with
+                                                      | XO p5 ->
+                                                        (match p5 with
+                                                         | XH ->
+                                                           skip_string KSos r'
+                                                         | _ ->
+                                                           (match parse_esc r with
+                                                            | Some p6 ->
+                                                              let (p7, rest) =
+                                                                p6
+                                                              in
+                                                              let (is, f) = p7
+                                                              in
+                                                              if esc_implemented
+                                                                   is f
+                                                              then None
+                                                              else Some rest
+                                                            | None -> None))
+                                                      | _ ->
+                                                        (match parse_esc r with
+                                                         | Some p5 ->
+                                                           let (p6, rest) = p5
+                                                           in
+                                                           let (is, f) = p6 in
+                                                           if esc_implemented
+                                                                is f
+                                                           then None
+                                                           else Some rest
+                                                         | None -> None))
+                                                   | _ ->
+                                                     (match parse_esc r with
+                                                      | Some p4 ->
+                                                        let (p5, rest) = p4 in
+                                                        let (is, f) = p5 in
+                                                        if esc_implemented is
+                                                             f
+                                                        then None
+                                                        else Some rest
+                                                      | None -> None))
+                                                | _ ->
+                                                  (match parse_esc r with
+                                                   | Some p3 ->
+                                                     let (p4, rest) = p3 in
+                                                     let (is, f) = p4 in
+                                                     if esc_implemented is f
+                                                     then None
+                                                     else Some rest
+                                                   | None -> None))
+                                             | _ ->
+                                               (match parse_esc r with
+                                                | Some p2 ->
+                                                  let (p3, rest) = p2 in
+                                                  let (is, f) = p3 in
+                                                  if esc_implemented is f
+                                                  then None
+                                                  else Some rest
+                                                | None -> None))
+                                          | XO p1 ->
+                                            (match p1 with
+                                             | XO p2 ->
+                                               (match p2 with
+                                                | XI p3 ->
+                                                  (match p3 with
+                                                   | XI p4 ->
+                                                     (match p4 with
+                                                      | XO p5 ->
+                                                        (match p5 with
+                                                         | XH ->
+                                                           skip_string KSos r'
+                                                         | _ ->
+                                                           (match parse_esc r with
+                                                            | Some p6 ->
+                                                              let (p7, rest) =
+                                                                p6
+                                                              in
+                                                              let (is, f) = p7
+                                                              in
+                                                              if esc_implemented
+                                                                   is f
+                                                              then None
+                                                              else Some rest
+                                                            | None -> None))
+                                                      | _ ->
+                                                        (match parse_esc r with
+                                                         | Some p5 ->
+                                                           let (p6, rest) = p5
+                                                           in
+                                                           let (is, f) = p6 in
+                                                           if esc_implemented
+                                                                is f
+                                                           then None
+                                                           else Some rest
+                                                         | None -> None))
+                                                   | _ ->
+                                                     (match parse_esc r with
+                                                      | Some p4 ->
+                                                        let (p5, rest) = p4 in
+                                                        let (is, f) = p5 in
+                                                        if esc_implemented is
+                                                             f
+                                                        then None
+                                                        else Some rest
+                                                      | None -> None))
+                                                | XO p3 ->
+                                                  (match p3 with
+                                                   | XI p4 ->
+                                                     (match p4 with
+                                                      | XO p5 ->
+                                                        (match p5 with
+                                                         | XH ->
+                                                           skip_string KDcs r'
+                                                         | _ ->
+                                                           (match parse_esc r with
+                                                            | Some p6 ->
+                                                              let (p7, rest) =
+                                                                p6
+                                                              in
+                                                              let (is, f) = p7
+                                                              in
+                                                              if esc_implemented
+                                                                   is f
+                                                              then None
+                                                              else Some rest
+                                                            | None -> None))
+                                                      | _ ->
+                                                        (match parse_esc r with
+                                                         | Some p5 ->
+                                                           let (p6, rest) = p5
+                                                           in
+                                                           let (is, f) = p6 in
+                                                           if esc_implemented
+                                                                is f
+                                                           then None
+                                                           else Some rest
+                                                         | None -> None))
+                                                   | _ ->
+                                                     (match parse_esc r with
+                                                      | Some p4 ->
+                                                        let (p5, rest) = p4 in
+                                                        let (is, f) = p5 in
+                                                        if esc_implemented is
+                                                             f
+                                                        then None
+                                                        else Some rest
+                                                      | None -> None))
+                                                | XH ->
+                                                  (match parse_esc r with
+                                                   | Some p3 ->
+                                                     let (p4, rest) = p3 in
+                                                     let (is, f) = p4 in
+                                                     if esc_implemented is f
+                                                     then None
+                                                     else Some rest
+                                                   | None -> None))
+                                             | _ ->
+                                               (match parse_esc r with
+                                                | Some p2 ->
+                                                  let (p3, rest) = p2 in
+                                                  let (is, f) = p3 in
+                                                  if esc_implemented is f
+                                                  then None
+                                                  else Some rest
+                                                | None -> None))
+                                          | XH ->
+                                            (match parse_esc r with
+                                             | Some p1 ->
+                                               let (p2, rest) = p1 in
+                                               let (is, f) = p2 in
+                                               if esc_implemented is f
+                                               then None
+                                               else Some rest
+                                             | None -> None))
+                                       | XH ->
+                                         (match parse_esc r with
+                                          | Some p0 ->
+                                            let (p1, rest) = p0 in
+                                            let (is, f) = p1 in
+                                            if esc_implemented is f
+                                            then None
+                                            else Some rest
+                                          | None -> None))))
+                           else None
+
+(** val inert_go : nat -> n list -> bool **)
+
+let rec inert_go fuel s = match s with
+| [] -> true
+| _ :: _ ->
+  (match fuel with
+   | O -> false
+   | S fuel0 ->
+     (match inert_item s with
+      | Some r -> inert_go fuel0 r
+      | None -> false))
+
+(** val inert_spec : n list -> bool **)
+
+let inert_spec s = match s with
+| [] -> false
+| _ :: _ -> inert_go (length s) s
+
+(** val last_N : n list -> n option **)
+
+let last_N =
+  last_opt
+
+(** val kf_c20_csi : n option -> n list -> n -> bool **)
+
+let kf_c20_csi marker inters final =
+  let prefix = app (match marker with
+                    | Some m -> m :: []
+                    | None -> []) inters
+  in
+  (&&) (Nat.leb (S (S O)) (length prefix))
+    (match last_N prefix with
+     | Some n0 ->
+       (match n0 with
+        | N0 -> false
+        | Npos p ->
+          (match p with
+           | XI p0 ->
+             (match p0 with
+              | XI p1 ->
+                (match p1 with
+                 | XI p2 ->
+                   (match p2 with
+                    | XI p3 ->
+                      (match p3 with
+                       | XI p4 ->
+                         (match p4 with
+                          | XH ->
+                            (||)
+                              (N.eqb final (Npos (XO (XO (XO (XI (XO (XI
+                                XH))))))))
+                              (N.eqb final (Npos (XO (XO (XI (XI (XO (XI
+                                XH))))))))
+                          | _ -> false)
+                       | _ -> false)
+                    | _ -> false)
+                 | _ -> false)
+              | XO p1 ->
+                (match p1 with
+                 | XO p2 ->
+                   (match p2 with
+                    | XO p3 ->
+                      (match p3 with
+                       | XO p4 ->
+                         (match p4 with
+                          | XH ->
+                            N.eqb final (Npos (XO (XO (XO (XO (XI (XI
+                              XH)))))))
+                          | _ -> false)
+                       | _ -> false)
+                    | _ -> false)
+                 | _ -> false)
+              | XH -> false)
+           | _ -> false))
+     | None -> false)
+
+(** val kf_c20_esc : n list -> n -> bool **)
+
+let kf_c20_esc inters final =
+  (&&) (Nat.leb (S (S O)) (length inters))
+    (match last_N inters with
+     | Some n0 ->
+       (match n0 with
+        | N0 -> false
+        | Npos p ->
+          (match p with
+           | XI p0 ->
+             (match p0 with
+              | XI p1 ->
+                (match p1 with
+                 | XO p2 ->
+                   (match p2 with
+                    | XO p3 ->
+                      (match p3 with
+                       | XO p4 ->
+                         (match p4 with
+                          | XH ->
+                            N.eqb final (Npos (XO (XO (XO (XI (XI XH))))))
+                          | _ -> false)
+                       | _ -> false)
+                    | _ -> false)
+                 | _ -> false)
+              | XO p1 ->
+                (match p1 with
+                 | XO p2 ->
+                   (match p2 with
+                    | XI p3 ->
+                      (match p3 with
+                       | XO p4 -> (match p4 with
+                                   | XH -> true
+                                   | _ -> false)
+                       | _ -> false)
+                    | _ -> false)
+                 | _ -> false)
+              | XH -> false)
+           | XO p0 ->
+             (match p0 with
+              | XO p1 ->
+                (match p1 with
+                 | XO p2 ->
+                   (match p2 with
+                    | XI p3 ->
+                      (match p3 with
+                       | XO p4 -> (match p4 with
+                                   | XH -> true
+                                   | _ -> false)
+                       | _ -> false)
+                    | _ -> false)
+                 | _ -> false)
+              | _ -> false)
+           | XH -> false))
+     | None -> false)
+
+(** val kf_c20_go : nat -> n list -> bool **)
+
+let rec kf_c20_go fuel s =
+  match fuel with
+  | O -> false
+  | S fuel0 ->
+    (match s with
+     | [] -> false
+     | c :: r ->
+       let here =
+         if N.eqb c (Npos (XI (XI (XO (XI (XI (XO (XO XH))))))))
+         then (match parse_csi r with
+               | Some p ->
+                 let (p0, _) = p in
+                 let (p1, f) = p0 in let (m, is) = p1 in kf_c20_csi m is f
+               | None -> false)
+         else if N.eqb c (Npos (XI (XI (XO (XI XH)))))
+              then (match r with
+                    | [] ->
+                      (match parse_esc r with
+                       | Some p ->
+                         let (p0, _) = p in
+                         let (is, f) = p0 in kf_c20_esc is f
+                       | None -> false)
+                    | n0 :: r' ->
+                      (match n0 with
+                       | N0 ->
+                         (match parse_esc r with
+                          | Some p ->
+                            let (p0, _) = p in
+                            let (is, f) = p0 in kf_c20_esc is f
+                          | None -> false)
+                       | Npos p ->
+                         (match p with
+                          | XI p0 ->
+                            (match p0 with
+                             | XI p1 ->
+                               (match p1 with
+                                | XO p2 ->
+                                  (match p2 with
+                                   | XI p3 ->
+                                     (match p3 with
+                                      | XI p4 ->
+                                        (match p4 with
+                                         | XO p5 ->
+                                           (match p5 with
+                                            | XH ->
+                                              (match parse_csi r' with
+                                               | Some p6 ->
+                                                 let (p7, _) = p6 in
+                                                 let (p8, f) = p7 in
+                                                 let (m, is) = p8 in
+                                                 kf_c20_csi m is f
+                                               | None -> false)
+                                            | _ ->
+                                              (match parse_esc r with
+                                               | Some p6 ->
+                                                 let (p7, _) = p6 in
+                                                 let (is, f) = p7 in
+                                                 kf_c20_esc is f
+                                               | None -> false))
+                                         | _ ->
+                                           (match parse_esc r with
+                                            | Some p5 ->
+                                              let (p6, _) = p5 in
+                                              let (is, f) = p6 in
+                                              kf_c20_esc is f
+                                            | None -> false))
+                                      | _ ->
+                                        (match parse_esc r with
+                                         | Some p4 ->
+                                           let (p5, _) = p4 in
+                                           let (is, f) = p5 in kf_c20_esc is f
+                                         | None -> false))
+                                   | _ ->
+                                     (match parse_esc r with
+                                      | Some p3 ->
+                                        let (p4, _) = p3 in
+                                        let (is, f) = p4 in kf_c20_esc is f
+                                      | None -> false))
+                                | _ ->
+                                  (match parse_esc r with
+                                   | Some p2 ->
+                                     let (p3, _) = p2 in
+                                     let (is, f) = p3 in kf_c20_esc is f
+                                   | None -> false))
+                             | _ ->
+                               (match parse_esc r with
+                                | Some p1 ->
+                                  let (p2, _) = p1 in
+                                  let (is, f) = p2 in kf_c20_esc is f
+                                | None -> false))
+                          | _ ->
+                            (match parse_esc r with
+                             | Some p0 ->
+                               let (p1, _) = p0 in
+                               let (is, f) = p1 in kf_c20_esc is f
+                             | None -> false))))
+              else false
+       in
+       (||) here
+         (match inert_item s with
+          | Some r' -> kf_c20_go fuel0 r'
+          | None -> false))
+
+(** val kf_c20 : n list -> bool **)
+
+let kf_c20 s =
+  kf_c20_go (length s) s
+
+(** val holds_C02_state : vt -> bool **)
+
+let holds_C02_state v =
+  let t = v.vterm in (&&) (geom_ok t) (buffer_geom_ok t.other)
+
+(** val holds_C02_call : op -> vt -> nat list -> bool **)
+
+let holds_C02_call o post ls =
+  let t = post.vterm in
+  (&&)
+    ((&&) (holds_C02_state post) (strictly_increasing_below t.rows None ls))
+    (match o with
+     | Resize (c, r) -> (&&) (Nat.eqb t.cols c) (Nat.eqb t.rows r)
+     | _ -> true)
+
+(** val holds_C04 : vt -> func -> vt -> bool **)
+
+let holds_C04 pre f post =
+  let t = pre.vterm in
+  (match f with
+   | G1d4 c ->
+     visible_eqb
+       (set (fun t0 -> t0.cs1) (fun f0 ->
+         let c0 = fun r -> f0 r.cs1 in
+         (fun x -> { cols = x.cols; rows = x.rows; buf = x.buf; other =
+         x.other; active = x.active; sb_limit = x.sb_limit; cur_col =
+         x.cur_col; cur_row = x.cur_row; cur_vis = x.cur_vis; tpen = x.tpen;
+         cs0 = x.cs0; cs1 = (c0 x); acs = x.acs; tabs = x.tabs; ins = x.ins;
+         org = x.org; awm = x.awm; nlm = x.nlm; ckm = x.ckm; pend = x.pend;
+         top = x.top; bot = x.bot; sctx = x.sctx; asctx = x.asctx; dirty =
+         x.dirty; xtw = x.xtw })) (fun _ -> c) t) post.vterm
+   | Gzd4 c ->
+     visible_eqb
+       (set (fun t0 -> t0.cs0) (fun f0 ->
+         let c0 = fun r -> f0 r.cs0 in
+         (fun x -> { cols = x.cols; rows = x.rows; buf = x.buf; other =
+         x.other; active = x.active; sb_limit = x.sb_limit; cur_col =
+         x.cur_col; cur_row = x.cur_row; cur_vis = x.cur_vis; tpen = x.tpen;
+         cs0 = (c0 x); cs1 = x.cs1; acs = x.acs; tabs = x.tabs; ins = x.ins;
+         org = x.org; awm = x.awm; nlm = x.nlm; ckm = x.ckm; pend = x.pend;
+         top = x.top; bot = x.bot; sctx = x.sctx; asctx = x.asctx; dirty =
+         x.dirty; xtw = x.xtw })) (fun _ -> c) t) post.vterm
+   | Print c -> visible_eqb (spec_print t c) post.vterm
+   | Rep n0 -> visible_eqb (spec_rep t n0) post.vterm
+   | Si ->
+     visible_eqb
+       (set (fun t0 -> t0.acs) (fun f0 ->
+         let n0 = fun r -> f0 r.acs in
+         (fun x -> { cols = x.cols; rows = x.rows; buf = x.buf; other =
+         x.other; active = x.active; sb_limit = x.sb_limit; cur_col =
+         x.cur_col; cur_row = x.cur_row; cur_vis = x.cur_vis; tpen = x.tpen;
+         cs0 = x.cs0; cs1 = x.cs1; acs = (n0 x); tabs = x.tabs; ins = x.ins;
+         org = x.org; awm = x.awm; nlm = x.nlm; ckm = x.ckm; pend = x.pend;
+         top = x.top; bot = x.bot; sctx = x.sctx; asctx = x.asctx; dirty =
+         x.dirty; xtw = x.xtw })) (fun _ -> O) t) post.vterm
+   | So ->
+     visible_eqb
+       (set (fun t0 -> t0.acs) (fun f0 ->
+         let n0 = fun r -> f0 r.acs in
+         (fun x -> { cols = x.cols; rows = x.rows; buf = x.buf; other =
+         x.other; active = x.active; sb_limit = x.sb_limit; cur_col =
+         x.cur_col; cur_row = x.cur_row; cur_vis = x.cur_vis; tpen = x.tpen;
+         cs0 = x.cs0; cs1 = x.cs1; acs = (n0 x); tabs = x.tabs; ins = x.ins;
+         org = x.org; awm = x.awm; nlm = x.nlm; ckm = x.ckm; pend = x.pend;
+         top = x.top; bot = x.bot; sctx = x.sctx; asctx = x.asctx; dirty =
+         x.dirty; xtw = x.xtw })) (fun _ -> S O) t) post.vterm
+   | _ -> true)
+
+(** val holds_C05 : vt -> func -> vt -> bool **)
+
+let holds_C05 pre f post =
+  match spec_cursor pre.vterm f with
+  | Some t' -> visible_eqb t' post.vterm
+  | None -> true
+
+(** val holds_C06 : vt -> func -> vt -> bool **)
+
+let holds_C06 pre f post =
+  let t = pre.vterm in
+  let t' = post.vterm in
+  (&&)
+    ((&&)
+      (match spec_scroll t f with
+       | Some e -> visible_eqb e t'
+       | None -> true)
+      (if may_touch_scrollback f
+       then true
+       else (&&) (lines_eqb (tsb t) (tsb t'))
+              (buffer_vis_eqb t.other t'.other)))
+    (match f with
+     | Decrst _ -> true
+     | Decset _ -> true
+     | Decstbm (_, _) -> true
+     | Decstr -> true
+     | Ris -> true
+     | Xtwinops _ -> true
+     | _ -> (&&) (Nat.eqb t.top t'.top) (Nat.eqb t.bot t'.bot))
+
+(** val holds_C07 : vt -> func -> vt -> bool **)
+
+let holds_C07 pre f post =
+  match spec_edit pre.vterm f with
+  | Some t' -> visible_eqb t' post.vterm
+  | None -> true
+
+(** val holds_C08 : vt -> func -> vt -> bool **)
+
+let holds_C08 pre f post =
+  let t = pre.vterm in
+  (match f with
+   | Sgr ops ->
+     (&&)
+       ((&&)
+         (obs_eqb (observe post.vterm.tpen)
+           (fold_left spec_sgr_one ops (observe t.tpen)))
+         (visible_eqb
+           (set (fun t0 -> t0.tpen) (fun f0 ->
+             let p = fun r -> f0 r.tpen in
+             (fun x -> { cols = x.cols; rows = x.rows; buf = x.buf; other =
+             x.other; active = x.active; sb_limit = x.sb_limit; cur_col =
+             x.cur_col; cur_row = x.cur_row; cur_vis = x.cur_vis; tpen =
+             (p x); cs0 = x.cs0; cs1 = x.cs1; acs = x.acs; tabs = x.tabs;
+             ins = x.ins; org = x.org; awm = x.awm; nlm = x.nlm; ckm = x.ckm;
+             pend = x.pend; top = x.top; bot = x.bot; sctx = x.sctx; asctx =
+             x.asctx; dirty = x.dirty; xtw = x.xtw })) (fun _ ->
+             post.vterm.tpen) t) post.vterm))
+       (let p = post.vparser in
+        list_eqb (fun a b ->
+          match a with
+          | Reset -> (match b with
+                      | Reset -> true
+                      | _ -> false)
+          | SetBoldIntensity ->
+            (match b with
+             | SetBoldIntensity -> true
+             | _ -> false)
+          | SetFaintIntensity ->
+            (match b with
+             | SetFaintIntensity -> true
+             | _ -> false)
+          | SetItalic -> (match b with
+                          | SetItalic -> true
+                          | _ -> false)
+          | SetUnderline -> (match b with
+                             | SetUnderline -> true
+                             | _ -> false)
+          | SetBlink -> (match b with
+                         | SetBlink -> true
+                         | _ -> false)
+          | SetInverse -> (match b with
+                           | SetInverse -> true
+                           | _ -> false)
+          | SetStrikethrough ->
+            (match b with
+             | SetStrikethrough -> true
+             | _ -> false)
+          | ResetIntensity ->
+            (match b with
+             | ResetIntensity -> true
+             | _ -> false)
+          | ResetItalic -> (match b with
+                            | ResetItalic -> true
+                            | _ -> false)
+          | ResetUnderline ->
+            (match b with
+             | ResetUnderline -> true
+             | _ -> false)
+          | ResetBlink -> (match b with
+                           | ResetBlink -> true
+                           | _ -> false)
+          | ResetInverse -> (match b with
+                             | ResetInverse -> true
+                             | _ -> false)
+          | ResetStrikethrough ->
+            (match b with
+             | ResetStrikethrough -> true
+             | _ -> false)
+          | SetForegroundColor c ->
+            (match b with
+             | SetForegroundColor d -> color_eqb c d
+             | _ -> false)
+          | ResetForegroundColor ->
+            (match b with
+             | ResetForegroundColor -> true
+             | _ -> false)
+          | SetBackgroundColor c ->
+            (match b with
+             | SetBackgroundColor d -> color_eqb c d
+             | _ -> false)
+          | ResetBackgroundColor ->
+            (match b with
+             | ResetBackgroundColor -> true
+             | _ -> false)) ops
+          (spec_sgr_params (firstn (S p.cur_param) p.params)))
+   | _ ->
+     (||) (pen_eqb t.tpen post.vterm.tpen)
+       (match f with
+        | Decrc -> true
+        | Decrst _ -> true
+        | Decstr -> true
+        | Ris -> true
+        | Scorc -> true
+        | _ -> false))
+
+(** val holds_C13 : vt -> bool **)
+
+let holds_C13 post =
+  let t = post.vterm in
+  let n0 = length t.buf.lines in
+  (match t.active with
+   | Primary ->
+     (match t.sb_limit with
+      | Some l ->
+        (&&)
+          (N.leb (N.of_nat n0)
+            (N.add (N.add (N.of_nat t.rows) l)
+              (N.div l (Npos (XO (XI (XO XH)))))))
+          (if N.eqb l N0 then Nat.eqb n0 t.rows else true)
+      | None -> true)
+   | Alternate -> Nat.eqb n0 t.rows)
+
+(** val holds_C15 : line list -> vt -> nat list -> bool **)
+
+let holds_C15 prev post ls =
+  let v = tview post.vterm in
+  forallb (fun r ->
+    (||) (existsb (Nat.eqb r) ls)
+      ((&&) (Nat.eqb (length prev) (length v))
+        (list_eqb cell_eqb (row_at prev r).cells (row_at v r).cells)))
+    (seq O (length v))
+
+(** val is_alt_b : term -> bool **)
+
+let is_alt_b t =
+  btype_eqb t.active Alternate
+
+(** val holds_C16 : vt -> func -> vt -> bool **)
+
+let holds_C16 pre f post =
+  let t = pre.vterm in
+  let t' = post.vterm in
+  if (&&) (is_alt_b t) (is_alt_b t')
+  then buffer_vis_eqb t.other t'.other
+  else if (&&) (negb (is_alt_b t)) (is_alt_b t')
+       then (&&)
+              ((&&) (buffer_vis_eqb t.buf t'.other)
+                (lines_eqb t'.buf.lines
+                  (repeat (blank_line t.cols t.tpen) t.rows)))
+              (match f with
+               | Decset ms ->
+                 (match ms with
+                  | [] -> true
+                  | d :: l ->
+                    (match d with
+                     | AltScreenBuffer ->
+                       (match l with
+                        | [] -> ctx_eqb t'.asctx t.sctx
+                        | _ :: _ -> true)
+                     | SaveCursorAltScreenBuffer ->
+                       (match l with
+                        | [] -> ctx_eqb t'.asctx (spec_saved_now t)
+                        | _ :: _ -> true)
+                     | _ -> true))
+               | _ -> true)
+       else if (&&) (is_alt_b t) (negb (is_alt_b t'))
+            then (match f with
+                  | Decrst _ ->
+                    if (&&) (Nat.eqb t.other.bcols t.cols)
+                         (Nat.eqb t.other.brows t.rows)
+                    then lines_eqb t'.buf.lines t.other.lines
+                    else true
+                  | _ -> true)
+            else true
+
+(** val clamp_ctx : saved_ctx -> nat -> nat -> saved_ctx **)
+
+let clamp_ctx c ncols nrows =
+  set (fun s -> s.sc_row) (fun f ->
+    let n0 = fun r -> f r.sc_row in
+    (fun x -> { sc_col = x.sc_col; sc_row = (n0 x); sc_pen = x.sc_pen;
+    sc_origin = x.sc_origin; sc_awm = x.sc_awm })) (fun _ ->
+    Nat.min c.sc_row (sub nrows (S O)))
+    (set (fun s -> s.sc_col) (fun f ->
+      let n0 = fun r -> f r.sc_col in
+      (fun x -> { sc_col = (n0 x); sc_row = x.sc_row; sc_pen = x.sc_pen;
+      sc_origin = x.sc_origin; sc_awm = x.sc_awm })) (fun _ ->
+      Nat.min c.sc_col (sub ncols (S O))) c)
+
+(** val other_screen : btype -> btype **)
+
+let other_screen = function
+| Primary -> Alternate
+| Alternate -> Primary
+
+(** val holds_C17 : vt -> func -> vt -> bool **)
+
+let holds_C17 pre f post =
+  let t = pre.vterm in
+  let t' = post.vterm in
+  let a = t.active in
+  (match f with
+   | Decrc ->
+     (&&)
+       ((&&) (visible_eqb (spec_restore t) t') (Nat.ltb t'.cur_col t'.cols))
+       (Nat.ltb t'.cur_row t'.rows)
+   | Decrst ms ->
+     (match ms with
+      | [] -> true
+      | d :: l ->
+        (match d with
+         | SaveCursor ->
+           (match l with
+            | [] ->
+              (&&)
+                ((&&) (visible_eqb (spec_restore t) t')
+                  (Nat.ltb t'.cur_col t'.cols)) (Nat.ltb t'.cur_row t'.rows)
+            | _ :: _ -> true)
+         | SaveCursorAltScreenBuffer ->
+           (match l with
+            | [] ->
+              let c = saved_of t Primary in
+              (&&)
+                ((&&)
+                  ((&&)
+                    ((&&)
+                      ((&&)
+                        ((&&) (pen_eqb t'.tpen c.sc_pen)
+                          (eqb t'.org c.sc_origin)) (eqb t'.awm c.sc_awm))
+                      (negb t'.pend)) (Nat.ltb t'.cur_col t'.cols))
+                  (Nat.ltb t'.cur_row t'.rows))
+                (if (&&) (Nat.eqb (primary_buffer t).bcols t.cols)
+                      (Nat.eqb (primary_buffer t).brows t.rows)
+                 then (&&) (Nat.eqb t'.cur_col c.sc_col)
+                        (Nat.eqb t'.cur_row c.sc_row)
+                 else true)
+            | _ :: _ -> true)
+         | _ -> true))
+   | Decsc ->
+     visible_eqb
+       (set (fun t0 -> t0.sctx) (fun f0 ->
+         let s = fun r -> f0 r.sctx in
+         (fun x -> { cols = x.cols; rows = x.rows; buf = x.buf; other =
+         x.other; active = x.active; sb_limit = x.sb_limit; cur_col =
+         x.cur_col; cur_row = x.cur_row; cur_vis = x.cur_vis; tpen = x.tpen;
+         cs0 = x.cs0; cs1 = x.cs1; acs = x.acs; tabs = x.tabs; ins = x.ins;
+         org = x.org; awm = x.awm; nlm = x.nlm; ckm = x.ckm; pend = x.pend;
+         top = x.top; bot = x.bot; sctx = (s x); asctx = x.asctx; dirty =
+         x.dirty; xtw = x.xtw })) (fun _ -> spec_saved_now t) t) t'
+   | Decset ms ->
+     (match ms with
+      | [] -> true
+      | d :: l ->
+        (match d with
+         | SaveCursor ->
+           (match l with
+            | [] ->
+              visible_eqb
+                (set (fun t0 -> t0.sctx) (fun f0 ->
+                  let s = fun r -> f0 r.sctx in
+                  (fun x -> { cols = x.cols; rows = x.rows; buf = x.buf;
+                  other = x.other; active = x.active; sb_limit = x.sb_limit;
+                  cur_col = x.cur_col; cur_row = x.cur_row; cur_vis =
+                  x.cur_vis; tpen = x.tpen; cs0 = x.cs0; cs1 = x.cs1; acs =
+                  x.acs; tabs = x.tabs; ins = x.ins; org = x.org; awm =
+                  x.awm; nlm = x.nlm; ckm = x.ckm; pend = x.pend; top =
+                  x.top; bot = x.bot; sctx = (s x); asctx = x.asctx; dirty =
+                  x.dirty; xtw = x.xtw })) (fun _ -> spec_saved_now t) t) t'
+            | _ :: _ -> true)
+         | SaveCursorAltScreenBuffer ->
+           (match l with
+            | [] -> ctx_eqb (saved_of t' a) (spec_saved_now t)
+            | _ :: _ -> true)
+         | _ -> true))
+   | Decstr ->
+     (&&) (ctx_eqb (saved_of t' a) default_ctx)
+       (ctx_eqb (saved_of t' (other_screen a)) (saved_of t (other_screen a)))
+   | Ris -> (&&) (ctx_eqb t'.sctx default_ctx) (ctx_eqb t'.asctx default_ctx)
+   | Scorc ->
+     (&&)
+       ((&&) (visible_eqb (spec_restore t) t') (Nat.ltb t'.cur_col t'.cols))
+       (Nat.ltb t'.cur_row t'.rows)
+   | Scosc ->
+     visible_eqb
+       (set (fun t0 -> t0.sctx) (fun f0 ->
+         let s = fun r -> f0 r.sctx in
+         (fun x -> { cols = x.cols; rows = x.rows; buf = x.buf; other =
+         x.other; active = x.active; sb_limit = x.sb_limit; cur_col =
+         x.cur_col; cur_row = x.cur_row; cur_vis = x.cur_vis; tpen = x.tpen;
+         cs0 = x.cs0; cs1 = x.cs1; acs = x.acs; tabs = x.tabs; ins = x.ins;
+         org = x.org; awm = x.awm; nlm = x.nlm; ckm = x.ckm; pend = x.pend;
+         top = x.top; bot = x.bot; sctx = (s x); asctx = x.asctx; dirty =
+         x.dirty; xtw = x.xtw })) (fun _ -> spec_saved_now t) t) t'
+   | Xtwinops _ -> true
+   | _ ->
+     (&&) ((&&) (ctx_eqb t.sctx t'.sctx) (ctx_eqb t.asctx t'.asctx))
+       (btype_eqb t.active t'.active))
+
+(** val holds_C17_resize : vt -> vt -> bool **)
+
+let holds_C17_resize pre post =
+  let t = pre.vterm in
+  let t' = post.vterm in
+  (&&) (ctx_eqb t'.sctx (clamp_ctx t.sctx t'.cols t'.rows))
+    (ctx_eqb t'.asctx t.asctx)
+
+(** val strictly_sorted : nat list -> bool **)
+
+let rec strictly_sorted = function
+| [] -> true
+| a :: r ->
+  (match r with
+   | [] -> true
+   | b :: _ -> (&&) (Nat.ltb a b) (strictly_sorted r))
+
+(** val stops_agree : nat -> nat list -> (nat -> bool) -> bool **)
+
+let stops_agree bound l f =
+  (&&)
+    ((&&)
+      (forallb (fun k -> eqb (is_stop l k) (f k))
+        (seq O (add bound (S (S O))))) (forallb (fun k -> Nat.ltb k bound) l))
+    (strictly_sorted l)
+
+(** val holds_C18 : vt -> func -> vt -> bool **)
+
+let holds_C18 pre f post =
+  let t = pre.vterm in
+  let t' = post.vterm in
+  let col = t.cur_col in
+  (match f with
+   | Ctc op0 ->
+     (match op0 with
+      | CtcSet ->
+        stops_agree t.cols t'.tabs (fun k ->
+          (||) (is_stop t.tabs k)
+            ((&&) ((&&) (Nat.eqb k col) (Nat.ltb O col)) (Nat.ltb col t.cols)))
+      | CtcClearCurrentColumn ->
+        stops_agree t.cols t'.tabs (fun k ->
+          (&&) (is_stop t.tabs k) (negb (Nat.eqb k col)))
+      | CtcClearAll -> (match t'.tabs with
+                        | [] -> true
+                        | _ :: _ -> false))
+   | Hts ->
+     stops_agree t.cols t'.tabs (fun k ->
+       (||) (is_stop t.tabs k)
+         ((&&) ((&&) (Nat.eqb k col) (Nat.ltb O col)) (Nat.ltb col t.cols)))
+   | Ris -> stops_agree t.cols t'.tabs (default_stop t.cols)
+   | Tbc s ->
+     (match s with
+      | TbcCurrentColumn ->
+        stops_agree t.cols t'.tabs (fun k ->
+          (&&) (is_stop t.tabs k) (negb (Nat.eqb k col)))
+      | TbcAll -> (match t'.tabs with
+                   | [] -> true
+                   | _ :: _ -> false))
+   | Xtwinops _ -> true
+   | _ -> list_eqb Nat.eqb t.tabs t'.tabs)
+
+(** val holds_C18_resize : vt -> vt -> bool **)
+
+let holds_C18_resize pre post =
+  let t = pre.vterm in
+  let t' = post.vterm in
+  stops_agree t'.cols t'.tabs (fun k ->
+    (||) ((&&) (is_stop t.tabs k) (Nat.ltb k t'.cols))
+      ((&&)
+        ((&&) ((&&) (Nat.leb t.cols k) (Nat.ltb k t'.cols))
+          (Nat.eqb (Nat.modulo k (S (S (S (S (S (S (S (S O))))))))) O))
+        (Nat.ltb O k)))
+
+(** val tabs_are_default : term -> bool **)
+
+let tabs_are_default t =
+  stops_agree t.cols t.tabs (default_stop t.cols)
+
+(** val holds_C19 : vt -> func -> vt -> bool **)
+
+let holds_C19 pre f post =
+  match f with
+  | Ris ->
+    vt_eqb post (vt_new pre.vterm.cols pre.vterm.rows pre.vterm.sb_limit)
+  | _ -> true
+
+(** val holds_C20 : vt -> n list -> vt -> bool **)
+
+let holds_C20 pre cs post =
+  match pre.vparser.pst with
+  | Ground ->
+    if inert_spec cs
+    then (&&) (term_eqb pre.vterm post.vterm)
+           (pstate_eqb post.vparser.pst Ground)
+    else true
+  | _ -> true
+
+(** val claims_inert : vt -> n list -> bool **)
+
+let claims_inert pre cs =
+  match pre.vparser.pst with
+  | Ground -> inert_spec cs
+  | _ -> false
+
+(** val known_C20 : n list -> bool **)
+
+let known_C20 =
+  kf_c20
+
+(** val logical_go : line list -> cell list -> cell list list **)
+
+let rec logical_go ls cur =
+  match ls with
+  | [] -> (match cur with
+           | [] -> []
+           | _ :: _ -> cur :: [])
+  | l :: r ->
+    let cur' = app cur l.cells in
+    if l.wrapped then logical_go r cur' else cur' :: (logical_go r [])
+
+(** val logical : line list -> cell list list **)
+
+let logical ls =
+  logical_go ls []
+
+(** val trimd : cell list -> cell list **)
+
+let trimd l =
+  rev (skip_while cell_is_default (rev l))
+
+(** val logical_t : line list -> cell list list **)
+
+let logical_t ls =
+  map trimd (logical ls)
+
+(** val curs_go : line list -> nat -> nat -> nat -> nat -> nat * nat **)
+
+let rec curs_go ls r k off ncols =
+  match r with
+  | O -> (k, off)
+  | S r' ->
+    (match ls with
+     | [] -> (k, off)
+     | l :: r0 ->
+       if l.wrapped
+       then curs_go r0 r' k (add off ncols) ncols
+       else curs_go r0 r' (S k) O ncols)
+
+(** val curs : buffer -> nat -> nat -> nat * nat **)
+
+let curs b c r =
+  let (k, off) = curs_go b.lines (add (sb_len b) r) O O b.bcols in
+  (k, (add off c))
+
+(** val cells_eqb : cell list -> cell list -> bool **)
+
+let cells_eqb =
+  list_eqb cell_eqb
+
+(** val is_prefix : cell list -> cell list -> bool **)
+
+let rec is_prefix a b =
+  match a with
+  | [] -> true
+  | x :: a' ->
+    (match b with
+     | [] -> false
+     | y :: b' -> (&&) (cell_eqb x y) (is_prefix a' b'))
+
+(** val all_empty : cell list list -> bool **)
+
+let all_empty l =
+  forallb (fun x -> match x with
+                    | [] -> true
+                    | _ :: _ -> false) l
+
+(** val tail_ok : cell list list -> cell list list -> bool **)
+
+let rec tail_ok new0 old =
+  match new0 with
+  | [] -> true
+  | x :: new' ->
+    (match old with
+     | [] -> all_empty new0
+     | y :: old' ->
+       if cells_eqb x y
+       then tail_ok new' old'
+       else (&&) (is_prefix x y) (all_empty new'))
+
+(** val eq_upto_blank : cell list -> cell list -> bool **)
+
+let eq_upto_blank a b =
+  (&&) (is_prefix a b) (forallb cell_is_default (skipn (length a) b))
+
+(** val resize_preserves :
+    buffer -> nat -> nat -> buffer -> nat -> nat -> bool **)
+
+let resize_preserves b c r b' c' r' =
+  let l = logical_t b.lines in
+  let l' = logical_t b'.lines in
+  let (k, o) = curs b c r in
+  let (k', o') = curs b' c' r' in
+  let old_k = nth k l [] in
+  let new_k = nth k l' [] in
+  let m = length old_k in
+  (&&)
+    ((&&)
+      ((&&)
+        ((&&)
+          ((&&) (Nat.eqb k' k)
+            (list_eqb cells_eqb (firstn k l') (firstn k l)))
+          (eq_upto_blank (firstn (Nat.min o m) new_k)
+            (firstn (Nat.min o m) old_k))) (is_prefix new_k old_k))
+      (if Nat.ltb o m then Nat.eqb o' o else true))
+    (tail_ok (skipn (S k) l') (skipn (S k) l))
+
+(** val split_crlf : n list -> n list -> n list list **)
+
+let rec split_crlf s cur =
+  match s with
+  | [] -> (rev cur) :: []
+  | c :: r ->
+    (match c with
+     | N0 -> split_crlf r (c :: cur)
+     | Npos p ->
+       (match p with
+        | XI p0 ->
+          (match p0 with
+           | XO p1 ->
+             (match p1 with
+              | XI p2 ->
+                (match p2 with
+                 | XH ->
+                   (match r with
+                    | [] -> split_crlf r (c :: cur)
+                    | n0 :: r0 ->
+                      (match n0 with
+                       | N0 -> split_crlf r (c :: cur)
+                       | Npos p3 ->
+                         (match p3 with
+                          | XO p4 ->
+                            (match p4 with
+                             | XI p5 ->
+                               (match p5 with
+                                | XO p6 ->
+                                  (match p6 with
+                                   | XH -> (rev cur) :: (split_crlf r0 [])
+                                   | _ -> split_crlf r (c :: cur))
+                                | _ -> split_crlf r (c :: cur))
+                             | _ -> split_crlf r (c :: cur))
+                          | _ -> split_crlf r (c :: cur))))
+                 | _ -> split_crlf r (c :: cur))
+              | _ -> split_crlf r (c :: cur))
+           | _ -> split_crlf r (c :: cur))
+        | _ -> split_crlf r (c :: cur)))
+
+(** val printable_c09 : n -> bool **)
+
+let printable_c09 c =
+  (||)
+    ((&&) (N.leb (Npos (XO (XO (XO (XO (XO XH)))))) c)
+      (N.leb c (Npos (XI (XI (XI (XI (XI (XI XH)))))))))
+    (N.leb (Npos (XO (XO (XO (XO (XO (XI (XO XH)))))))) c)
+
+(** val text_eqb : n list list -> n list list -> bool **)
+
+let text_eqb =
+  list_eqb (list_eqb N.eqb)
+
+(** val holds_C09 : n list -> n list list -> n list list -> bool **)
+
+let holds_C09 input txt unw =
+  let ls = split_crlf input [] in
+  if forallb (forallb printable_c09) ls
+  then let expect = strip_empty_tail (map trim_end ls) in
+       (&&) (text_eqb (strip_empty_tail txt) expect)
+         (text_eqb (strip_empty_tail (map trim_end unw)) expect)
+  else true
+
+(** val holds_C10 : vt -> vt -> bool **)
+
+let holds_C10 pre post =
+  let t = pre.vterm in
+  let t' = post.vterm in
+  (match t.active with
+   | Primary ->
+     (match t.sb_limit with
+      | Some _ -> true
+      | None ->
+        resize_preserves t.buf t.cur_col t.cur_row t'.buf t'.cur_col
+          t'.cur_row)
+   | Alternate -> true)
+
+(** val holds_C16_resized : vt -> func -> vt -> bool **)
+
+let holds_C16_resized pre f post =
+  let t = pre.vterm in
+  let t' = post.vterm in
+  if (&&) (is_alt_b t) (negb (is_alt_b t'))
+  then (match f with
+        | Decrst ms ->
+          (match ms with
+           | [] -> true
+           | d :: l ->
+             (match d with
+              | AltScreenBuffer ->
+                (match l with
+                 | [] ->
+                   (match t.sb_limit with
+                    | Some _ -> true
+                    | None -> holds_C02_state post)
+                 | _ :: _ -> true)
+              | SaveCursorAltScreenBuffer ->
+                (match l with
+                 | [] ->
+                   (match t.sb_limit with
+                    | Some _ -> true
+                    | None ->
+                      let c = saved_of t Primary in
+                      (&&)
+                        (resize_preserves t.other c.sc_col c.sc_row t'.buf
+                          t'.cur_col t'.cur_row) (holds_C02_state post))
+                 | _ :: _ -> true)
+              | _ -> true))
+        | _ -> true)
+  else true
+
+(** val obs_buffer_eqb : buffer -> buffer -> bool **)
+
+let obs_buffer_eqb a b =
+  (&&) ((&&) (lines_eqb (view a) (view b)) (Nat.eqb a.bcols b.bcols))
+    (Nat.eqb a.brows b.brows)
+
+(** val obs_eqb_term : term -> term -> bool **)
+
+let obs_eqb_term a b =
+  (&&)
+    ((&&)
+      (term_scalars_eqb
+        (set (fun t -> t.sb_limit) (fun f ->
+          let o = fun r -> f r.sb_limit in
+          (fun x -> { cols = x.cols; rows = x.rows; buf = x.buf; other =
+          x.other; active = x.active; sb_limit = (o x); cur_col = x.cur_col;
+          cur_row = x.cur_row; cur_vis = x.cur_vis; tpen = x.tpen; cs0 =
+          x.cs0; cs1 = x.cs1; acs = x.acs; tabs = x.tabs; ins = x.ins; org =
+          x.org; awm = x.awm; nlm = x.nlm; ckm = x.ckm; pend = x.pend; top =
+          x.top; bot = x.bot; sctx = x.sctx; asctx = x.asctx; dirty =
+          x.dirty; xtw = x.xtw })) (fun _ -> None) a)
+        (set (fun t -> t.sb_limit) (fun f ->
+          let o = fun r -> f r.sb_limit in
+          (fun x -> { cols = x.cols; rows = x.rows; buf = x.buf; other =
+          x.other; active = x.active; sb_limit = (o x); cur_col = x.cur_col;
+          cur_row = x.cur_row; cur_vis = x.cur_vis; tpen = x.tpen; cs0 =
+          x.cs0; cs1 = x.cs1; acs = x.acs; tabs = x.tabs; ins = x.ins; org =
+          x.org; awm = x.awm; nlm = x.nlm; ckm = x.ckm; pend = x.pend; top =
+          x.top; bot = x.bot; sctx = x.sctx; asctx = x.asctx; dirty =
+          x.dirty; xtw = x.xtw })) (fun _ -> None) b))
+      (obs_buffer_eqb a.buf b.buf))
+    (match a.active with
+     | Primary -> true
+     | Alternate -> obs_buffer_eqb a.other b.other)
+
+(** val obs_params : parser0 -> n list list **)
+
+let obs_params p =
+  map pparts (firstn (S p.cur_param) p.params)
+
+(** val obs_eqb_parser : parser0 -> parser0 -> bool **)
+
+let obs_eqb_parser a b =
+  (&&) (pstate_eqb a.pst b.pst)
+    (match a.pst with
+     | EscapeIntermediate -> opt_eqb N.eqb a.inter b.inter
+     | CsiParam ->
+       (&&) (opt_eqb N.eqb a.inter b.inter)
+         (list_eqb (list_eqb N.eqb) (obs_params a) (obs_params b))
+     | CsiIntermediate -> opt_eqb N.eqb a.inter b.inter
+     | DcsParam ->
+       (&&) (opt_eqb N.eqb a.inter b.inter)
+         (list_eqb (list_eqb N.eqb) (obs_params a) (obs_params b))
+     | DcsIntermediate -> opt_eqb N.eqb a.inter b.inter
+     | _ -> true)
+
+(** val holds_C12 : vt -> vt -> bool **)
+
+let holds_C12 a b =
+  (&&) ((&&) (obs_eqb_term a.vterm b.vterm) (parser_eqb a.vparser b.vparser))
+    (match a.vterm.sb_limit with
+     | Some _ -> true
+     | None ->
+       (match a.vterm.active with
+        | Primary -> lines_eqb a.vterm.buf.lines b.vterm.buf.lines
+        | Alternate -> lines_eqb a.vterm.other.lines b.vterm.other.lines))
+
+(** val known_C12 : vt -> bool **)
+
+let known_C12 perchar =
+  (&&) (is_alt_b perchar.vterm)
+    (Nat.ltb perchar.vterm.rows (length perchar.vterm.buf.lines))
+
+(** val holds_C12_lines : vt -> vt -> bool **)
+
+let holds_C12_lines a b =
+  Nat.eqb (length a.vterm.buf.lines) (length b.vterm.buf.lines)
+
+(** val dumpable : term -> bool **)
+
+let dumpable t =
+  (&&)
+    (N.leb (N.of_nat t.cols) (Npos (XO (XI (XI (XI (XI (XI (XI (XI (XI (XI
+      (XI (XI (XI (XI (XI XH)))))))))))))))))
+    (N.leb (N.of_nat t.rows) (Npos (XI (XI (XI (XI (XI (XI (XI (XI (XI (XI
+      (XI (XI (XI (XI (XI XH)))))))))))))))))
+
+(** val kf1_C11 : term -> bool **)
+
+let kf1_C11 t =
+  (&&) t.org ((||) (Nat.ltb t.cur_row t.top) (Nat.ltb t.bot t.cur_row))
+
+(** val kf2_C11 : term -> bool **)
+
+let kf2_C11 t =
+  (&&) (is_alt_b t)
+    (negb
+      ((&&) (Nat.eqb t.other.bcols t.cols) (Nat.eqb t.other.brows t.rows)))
+
+(** val kf3_C11 : term -> bool **)
+
+let kf3_C11 t =
+  negb (dumpable t)
+
+(** val norm_C11 : term -> term **)
+
+let norm_C11 t =
+  set (fun t0 -> t0.asctx) (fun f ->
+    let s = fun r -> f r.asctx in
+    (fun x -> { cols = x.cols; rows = x.rows; buf = x.buf; other = x.other;
+    active = x.active; sb_limit = x.sb_limit; cur_col = x.cur_col; cur_row =
+    x.cur_row; cur_vis = x.cur_vis; tpen = x.tpen; cs0 = x.cs0; cs1 = x.cs1;
+    acs = x.acs; tabs = x.tabs; ins = x.ins; org = x.org; awm = x.awm; nlm =
+    x.nlm; ckm = x.ckm; pend = x.pend; top = x.top; bot = x.bot; sctx =
+    x.sctx; asctx = (s x); dirty = x.dirty; xtw = x.xtw })) (fun _ ->
+    clamp_ctx t.asctx t.cols t.rows)
+    (set (fun t0 -> t0.sb_limit) (fun f ->
+      let o = fun r -> f r.sb_limit in
+      (fun x -> { cols = x.cols; rows = x.rows; buf = x.buf; other = x.other;
+      active = x.active; sb_limit = (o x); cur_col = x.cur_col; cur_row =
+      x.cur_row; cur_vis = x.cur_vis; tpen = x.tpen; cs0 = x.cs0; cs1 =
+      x.cs1; acs = x.acs; tabs = x.tabs; ins = x.ins; org = x.org; awm =
+      x.awm; nlm = x.nlm; ckm = x.ckm; pend = x.pend; top = x.top; bot =
+      x.bot; sctx = x.sctx; asctx = x.asctx; dirty = x.dirty; xtw = x.xtw }))
+      (fun _ -> None) t)
+
+(** val holds_C11 : vt -> vt -> bool **)
+
+let holds_C11 orig restored =
+  let a = orig.vterm in
+  let b = restored.vterm in
+  (&&)
+    ((&&) (obs_eqb_term (norm_C11 a) (norm_C11 b))
+      (obs_eqb_parser orig.vparser restored.vparser))
+    (match a.active with
+     | Primary -> true
+     | Alternate -> obs_buffer_eqb a.other b.other)
+
+(** val holds_C14 : line list -> line list -> line list -> bool **)
+
+let holds_C14 drained_L lines_L lines_inf =
+  lines_eqb (app drained_L lines_L) lines_inf
